@@ -42,208 +42,21 @@ Definition pyx_both (M : bmodel) (P : prog) (path : string) (v : value) : string
   let a := pyx_row true M P path v in
   let b := pyx_row false M P path v in
   a ++ "#" ++ (if String.eqb a b then "=" else b).
-Definition M_cells_c2_c3 : bmodel := (mkModel (mkCfg "u16" "u16" "com.example.msg" "msg" "example.com/msg" false (Some (mkPad " " true))) [(mkPacket "Inner" false None [(mkField "a" (ABasic "u8") LNone false); (mkField "b" (ABasic "i16") LNone false); (mkField "c" ADyn LNone false)] []); (mkPacket "Inner2" false None [(mkField "a2" (ABasic "u8") LNone false); (mkField "c2" (AFixed 3%nat None) LNone false)] []); (mkPacket "Logon" false None [(mkField "x" (ABasic "u8") LNone false); (mkField "user" ADyn LNone false); (mkField "codes" (ABasic "u16") LNone true)] []); (mkPacket "Logout" false None [(mkField "reason" (ABasic "u16") LNone false)] []); (mkPacket "Empty" false None [] []); (mkPacket "Msg" true (Some "BodyLen") [(mkField "su8" (ABasic "u8") LNone false); (mkField "luint8" (ABasic "uint8") LNone false); (mkField "su16" (ABasic "u16") LNone false); (mkField "luint16" (ABasic "uint16") LNone false); (mkField "su32" (ABasic "u32") LNone false); (mkField "luint32" (ABasic "uint32") LNone false); (mkField "su64" (ABasic "u64") LNone false); (mkField "luint64" (ABasic "uint64") LNone false); (mkField "si8" (ABasic "i8") LNone false); (mkField "lint8" (ABasic "int8") LNone false); (mkField "si16" (ABasic "i16") LNone false); (mkField "lint16" (ABasic "int16") LNone false); (mkField "si32" (ABasic "i32") LNone false); (mkField "lint32" (ABasic "int32") LNone false); (mkField "si64" (ABasic "i64") LNone false); (mkField "lint64" (ABasic "int64") LNone false); (mkField "sf32" (ABasic "f32") LNone false); (mkField "lfloat32" (ABasic "float32") LNone false); (mkField "sf64" (ABasic "f64") LNone false); (mkField "lfloat64" (ABasic "float64") LNone false); (mkField "fsplain" (AFixed 6%nat None) LNone false); (mkField "fs0" (AFixed 4%nat (Some (mkPad "'0'" true))) LNone false); (mkField "fs1" (AFixed 5%nat (Some (mkPad "'0'" false))) LNone false); (mkField "fs2" (AFixed 6%nat (Some (mkPad "' '" true))) LNone false); (mkField "fs3" (AFixed 7%nat (Some (mkPad "' '" false))) LNone false); (mkField "fs4" (AFixed 8%nat (Some (mkPad (bs [39;0;39]) true))) LNone false); (mkField "fs5" (AFixed 9%nat (Some (mkPad (bs [39;0;39]) false))) LNone false); (mkField "fs6" (AFixed 10%nat (Some (mkPad "' '" true))) LNone false); (mkField "fs7" (AFixed 11%nat (Some (mkPad "' '" false))) LNone false); (mkField "fz" (AFixed 7%nat (Some (mkPad (bs [39;0;39]) false))) LNone false); (mkField "fzl0" (AFixed 3%nat (Some (mkPad "'0'" true))) LNone false); (mkField "s1" ADyn LNone false); (mkField "s2" ADyn LNone false); (mkField "Inner" (AObj false "Inner" (Some "Inner") None) LNone false); (mkField "Sub" (AObj true "Sub" (Some "Sub") (Some (mkPacket "Sub" false None [(mkField "q" (ABasic "u8") LNone false); (mkField "w" ADyn LNone false); (mkField "Deep" (AObj true "Deep" (Some "Deep") (Some (mkPacket "Deep" false None [(mkField "z" (ABasic "u16") LNone false); (mkField "zs" (ABasic "i32") LNone true)] []))) LNone false)] []))) LNone false); (mkField "ru8" (ABasic "u8") LNone true); (mkField "ru16" (ABasic "u16") LNone true); (mkField "ru32" (ABasic "u32") LNone true); (mkField "ru64" (ABasic "u64") LNone true); (mkField "ri8" (ABasic "i8") LNone true); (mkField "ri16" (ABasic "i16") LNone true); (mkField "ri32" (ABasic "i32") LNone true); (mkField "ri64" (ABasic "i64") LNone true); (mkField "rf32" (ABasic "f32") LNone true); (mkField "rf64" (ABasic "f64") LNone true); (mkField "rstr" ADyn LNone true); (mkField "rstr2" ADyn LNone true); (mkField "rfs" (AFixed 3%nat None) LNone true); (mkField "rfz" (AFixed 3%nat (Some (mkPad (bs [39;0;39]) false))) LNone true); (mkField "Inner2" (AObj false "Inner2" (Some "Inner2") None) LNone true); (mkField "Grp" (AObj true "Grp" (Some "Grp") (Some (mkPacket "Grp" false None [(mkField "k" (ABasic "u8") LNone false); (mkField "v" (AFixed 2%nat None) LNone false)] []))) LNone true); (mkField "SeqNum" (ABasic "u32") LNone false); (mkField "seq2" (ABasic "u32") LNone false); (mkField "seqs" (ABasic "u32") LNone true); (mkField "Symbol" (AFixed 8%nat None) LNone false); (mkField "alt" (AFixed 8%nat None) LNone false); (mkField "ZSym" (AFixed 5%nat (Some (mkPad (bs [39;0;39]) false))) LNone false); (mkField "Note" ADyn LNone false); (mkField "syms" (AFixed 8%nat None) LNone true); (mkField "px" (ABasic "f64") LNone false); (mkField "MsgType" (ABasic "u16") LNone false); (mkField "BodyLen" (ALen (Some "Body") "u32") LLenOf false); (mkField "Body" (AMatch (Some "MsgType") (Some (ABasic "u16")) [(mkPair "1" "Logon"); (mkPair "2" "Logout"); (mkPair "3" "Logout"); (mkPair "7" "Logon"); (mkPair "9" "Empty")]) LTarget false); (mkField "Checksum" (ACheck (bs [34;67;82;67;51;50;34]) "u32") LNone false)] [("MsgType", [(mkPair "1" "Logon"); (mkPair "2" "Logout"); (mkPair "3" "Logout"); (mkPair "7" "Logon"); (mkPair "9" "Empty")])])] ["Empty"; "Inner"; "Inner2"; "Logon"; "Logout"; "Msg"] (Some "Msg") [("Body", ("Body", "body", "body")); ("BodyLen", ("BodyLen", "bodyLen", "body_len")); ("Checksum", ("Checksum", "checksum", "checksum")); ("Deep", ("Deep", "deep", "deep")); ("Empty", ("Empty", "empty", "empty")); ("Grp", ("Grp", "grp", "grp")); ("Inner", ("Inner", "inner", "inner")); ("Inner2", ("Inner2", "inner2", "inner_2")); ("Logon", ("Logon", "logon", "logon")); ("Logout", ("Logout", "logout", "logout")); ("Msg", ("Msg", "msg", "msg")); ("MsgType", ("MsgType", "msgType", "msg_type")); ("Note", ("Note", "note", "note")); ("SeqNum", ("SeqNum", "seqNum", "seq_num")); ("Sub", ("Sub", "sub", "sub")); ("Symbol", ("Symbol", "symbol", "symbol")); ("ZSym", ("Zsym", "zsym", "z_sym")); ("a", ("A", "a", "a")); ("a2", ("A2", "a2", "a_2")); ("alt", ("Alt", "alt", "alt")); ("b", ("B", "b", "b")); ("byte", ("Byte", "byte", "byte")); ("c", ("C", "c", "c")); ("c2", ("C2", "c2", "c_2")); ("char", ("Char", "char", "char")); ("codes", ("Codes", "codes", "codes")); ("double", ("Double", "double", "double")); ("f32", ("F32", "f32", "f_32")); ("f64", ("F64", "f64", "f_64")); ("float", ("Float", "float", "float")); ("float32", ("Float32", "float32", "float_32")); ("float64", ("Float64", "float64", "float_64")); ("fs0", ("Fs0", "fs0", "fs_0")); ("fs1", ("Fs1", "fs1", "fs_1")); ("fs2", ("Fs2", "fs2", "fs_2")); ("fs3", ("Fs3", "fs3", "fs_3")); ("fs4", ("Fs4", "fs4", "fs_4")); ("fs5", ("Fs5", "fs5", "fs_5")); ("fs6", ("Fs6", "fs6", "fs_6")); ("fs7", ("Fs7", "fs7", "fs_7")); ("fsplain", ("Fsplain", "fsplain", "fsplain")); ("fz", ("Fz", "fz", "fz")); ("fzl0", ("Fzl0", "fzl0", "fzl_0")); ("i16", ("I16", "i16", "i_16")); ("i32", ("I32", "i32", "i_32")); ("i64", ("I64", "i64", "i_64")); ("i8", ("I8", "i8", "i_8")); ("int", ("Int", "int", "int")); ("int16", ("Int16", "int16", "int_16")); ("int32", ("Int32", "int32", "int_32")); ("int64", ("Int64", "int64", "int_64")); ("int8", ("Int8", "int8", "int_8")); ("k", ("K", "k", "k")); ("lfloat32", ("Lfloat32", "lfloat32", "lfloat_32")); ("lfloat64", ("Lfloat64", "lfloat64", "lfloat_64")); ("lint16", ("Lint16", "lint16", "lint_16")); ("lint32", ("Lint32", "lint32", "lint_32")); ("lint64", ("Lint64", "lint64", "lint_64")); ("lint8", ("Lint8", "lint8", "lint_8")); ("long", ("Long", "long", "long")); ("luint16", ("Luint16", "luint16", "luint_16")); ("luint32", ("Luint32", "luint32", "luint_32")); ("luint64", ("Luint64", "luint64", "luint_64")); ("luint8", ("Luint8", "luint8", "luint_8")); ("match", ("Match", "match", "match")); ("object", ("Object", "object", "object")); ("px", ("Px", "px", "px")); ("q", ("Q", "q", "q")); ("reason", ("Reason", "reason", "reason")); ("rf32", ("Rf32", "rf32", "rf_32")); ("rf64", ("Rf64", "rf64", "rf_64")); ("rfs", ("Rfs", "rfs", "rfs")); ("rfz", ("Rfz", "rfz", "rfz")); ("ri16", ("Ri16", "ri16", "ri_16")); ("ri32", ("Ri32", "ri32", "ri_32")); ("ri64", ("Ri64", "ri64", "ri_64")); ("ri8", ("Ri8", "ri8", "ri_8")); ("rstr", ("Rstr", "rstr", "rstr")); ("rstr2", ("Rstr2", "rstr2", "rstr_2")); ("ru16", ("Ru16", "ru16", "ru_16")); ("ru32", ("Ru32", "ru32", "ru_32")); ("ru64", ("Ru64", "ru64", "ru_64")); ("ru8", ("Ru8", "ru8", "ru_8")); ("s1", ("S1", "s1", "s_1")); ("s2", ("S2", "s2", "s_2")); ("seq2", ("Seq2", "seq2", "seq_2")); ("seqs", ("Seqs", "seqs", "seqs")); ("sf32", ("Sf32", "sf32", "sf_32")); ("sf64", ("Sf64", "sf64", "sf_64")); ("short", ("Short", "short", "short")); ("si16", ("Si16", "si16", "si_16")); ("si32", ("Si32", "si32", "si_32")); ("si64", ("Si64", "si64", "si_64")); ("si8", ("Si8", "si8", "si_8")); ("string", ("String", "string", "string")); ("su16", ("Su16", "su16", "su_16")); ("su32", ("Su32", "su32", "su_32")); ("su64", ("Su64", "su64", "su_64")); ("su8", ("Su8", "su8", "su_8")); ("syms", ("Syms", "syms", "syms")); ("u16", ("U16", "u16", "u_16")); ("u32", ("U32", "u32", "u_32")); ("u64", ("U64", "u64", "u_64")); ("u8", ("U8", "u8", "u_8")); ("uint16", ("Uint16", "uint16", "uint_16")); ("uint32", ("Uint32", "uint32", "uint_32")); ("uint64", ("Uint64", "uint64", "uint_64")); ("uint8", ("Uint8", "uint8", "uint_8")); ("user", ("User", "user", "user")); ("v", ("V", "v", "v")); ("w", ("W", "w", "w")); ("x", ("X", "x", "x")); ("z", ("Z", "z", "z")); ("zs", ("Zs", "zs", "zs"))]).
-Definition O_cells_c2_c3 : prog := [("Inner", mkPkt 3%nat [(0%nat, (EInt 1%nat false)); (1%nat, (EInt 2%nat false)); (2%nat, (EStr 2%nat false false))] [(0%nat, (DInt 1%nat false)); (1%nat, (DInt 2%nat false)); (2%nat, (DStr 2%nat false false))]); ("Inner2", mkPkt 2%nat [(0%nat, (EInt 1%nat false)); (1%nat, (EFixed 3%nat (Some (" ", true))))] [(0%nat, (DInt 1%nat false)); (1%nat, (DFixed 3%nat (Some (" ", true))))]); ("Logon", mkPkt 3%nat [(0%nat, (EInt 1%nat false)); (1%nat, (EStr 2%nat false false)); (2%nat, (EList 2%nat false false (EInt 2%nat false)))] [(0%nat, (DInt 1%nat false)); (1%nat, (DStr 2%nat false false)); (2%nat, (DList 2%nat false false (DInt 2%nat false)))]); ("Logout", mkPkt 1%nat [(0%nat, (EInt 2%nat false))] [(0%nat, (DInt 2%nat false))]); ("Empty", mkPkt 0%nat [] []); ("Msg/Sub/Deep", mkPkt 2%nat [(0%nat, (EInt 2%nat false)); (1%nat, (EList 2%nat false false (EInt 4%nat false)))] [(0%nat, (DInt 2%nat false)); (1%nat, (DList 2%nat false false (DInt 4%nat false)))]); ("Msg/Sub", mkPkt 3%nat [(0%nat, (EInt 1%nat false)); (1%nat, (EStr 2%nat false false)); (2%nat, (EObj "Msg/Sub/Deep"))] [(0%nat, (DInt 1%nat false)); (1%nat, (DStr 2%nat false false)); (2%nat, (DObj "Msg/Sub/Deep"))]); ("Msg/Grp", mkPkt 2%nat [(0%nat, (EInt 1%nat false)); (1%nat, (EFixed 2%nat (Some (" ", true))))] [(0%nat, (DInt 1%nat false)); (1%nat, (DFixed 2%nat (Some (" ", true))))]); ("Msg", mkPkt 64%nat [(0%nat, (EInt 1%nat false)); (1%nat, (EInt 1%nat false)); (2%nat, (EInt 2%nat false)); (3%nat, (EInt 2%nat false)); (4%nat, (EInt 4%nat false)); (5%nat, (EInt 4%nat false)); (6%nat, (EInt 8%nat false)); (7%nat, (EInt 8%nat false)); (8%nat, (EInt 1%nat false)); (9%nat, (EInt 1%nat false)); (10%nat, (EInt 2%nat false)); (11%nat, (EInt 2%nat false)); (12%nat, (EInt 4%nat false)); (13%nat, (EInt 4%nat false)); (14%nat, (EInt 8%nat false)); (15%nat, (EInt 8%nat false)); (16%nat, (EInt 4%nat false)); (17%nat, (EInt 4%nat false)); (18%nat, (EInt 8%nat false)); (19%nat, (EInt 8%nat false)); (20%nat, (EFixed 6%nat (Some (" ", true)))); (21%nat, (EFixed 4%nat (Some ("'0'", true)))); (22%nat, (EFixed 5%nat (Some ("'0'", false)))); (23%nat, (EFixed 6%nat (Some ("' '", true)))); (24%nat, (EFixed 7%nat None)); (25%nat, (EFixed 8%nat (Some ("'\x00'", true)))); (26%nat, (EFixed 9%nat (Some ("'\x00'", false)))); (27%nat, (EFixed 10%nat (Some ("' '", true)))); (28%nat, (EFixed 11%nat None)); (29%nat, (EFixed 7%nat (Some ("'\x00'", false)))); (30%nat, (EFixed 3%nat (Some ("'0'", true)))); (31%nat, (EStr 2%nat false false)); (32%nat, (EStr 2%nat false false)); (33%nat, (EObj "Inner")); (34%nat, (EObj "Msg/Sub")); (35%nat, (EList 2%nat false false (EInt 1%nat false))); (36%nat, (EList 2%nat false false (EInt 2%nat false))); (37%nat, (EList 2%nat false false (EInt 4%nat false))); (38%nat, (EList 2%nat false false (EInt 8%nat false))); (39%nat, (EList 2%nat false false (EInt 1%nat false))); (40%nat, (EList 2%nat false false (EInt 2%nat false))); (41%nat, (EList 2%nat false false (EInt 4%nat false))); (42%nat, (EList 2%nat false false (EInt 8%nat false))); (43%nat, (EList 2%nat false false (EInt 4%nat false))); (44%nat, (EList 2%nat false false (EInt 8%nat false))); (45%nat, (EList 2%nat false false (EStr 2%nat false false))); (46%nat, (EList 2%nat false false (EStr 2%nat false false))); (47%nat, (EList 2%nat false false (EFixed 3%nat (Some (" ", true))))); (48%nat, (EList 2%nat false false (EFixed 3%nat (Some ("'\x00'", false))))); (49%nat, (EList 2%nat false false (EObj "Inner2"))); (50%nat, (EList 2%nat false false (EObj "Msg/Grp"))); (51%nat, (EInt 4%nat false)); (52%nat, (EInt 4%nat false)); (53%nat, (EList 2%nat false false (EInt 4%nat false))); (54%nat, (EFixed 8%nat (Some (" ", true)))); (55%nat, (EFixed 8%nat (Some (" ", true)))); (56%nat, (EFixed 5%nat (Some ("'\x00'", false)))); (57%nat, (EStr 2%nat false false)); (58%nat, (EList 2%nat false false (EFixed 8%nat (Some (" ", true))))); (59%nat, (EInt 8%nat false)); (60%nat, (EInt 2%nat false)); (61%nat, (EMarkZero 61%nat 4%nat false)); (62%nat, (ESpan EDyn 62%nat)); (62%nat, (EPatch 61%nat 62%nat 4%nat false 4%nat None)); (63%nat, (ECheck (bs [34;67;82;67;51;50;34]) 4%nat false))] [(0%nat, (DInt 1%nat false)); (1%nat, (DInt 1%nat false)); (2%nat, (DInt 2%nat false)); (3%nat, (DInt 2%nat false)); (4%nat, (DInt 4%nat false)); (5%nat, (DInt 4%nat false)); (6%nat, (DInt 8%nat false)); (7%nat, (DInt 8%nat false)); (8%nat, (DInt 1%nat false)); (9%nat, (DInt 1%nat false)); (10%nat, (DInt 2%nat false)); (11%nat, (DInt 2%nat false)); (12%nat, (DInt 4%nat false)); (13%nat, (DInt 4%nat false)); (14%nat, (DInt 8%nat false)); (15%nat, (DInt 8%nat false)); (16%nat, (DInt 4%nat false)); (17%nat, (DInt 4%nat false)); (18%nat, (DInt 8%nat false)); (19%nat, (DInt 8%nat false)); (20%nat, (DFixed 6%nat (Some (" ", true)))); (21%nat, (DFixed 4%nat (Some ("'0'", true)))); (22%nat, (DFixed 5%nat (Some ("'0'", false)))); (23%nat, (DFixed 6%nat (Some ("' '", true)))); (24%nat, (DFixed 7%nat None)); (25%nat, (DFixed 8%nat (Some ("'\x00'", true)))); (26%nat, (DFixed 9%nat (Some ("'\x00'", false)))); (27%nat, (DFixed 10%nat (Some ("' '", true)))); (28%nat, (DFixed 11%nat None)); (29%nat, (DFixed 7%nat (Some ("'\x00'", false)))); (30%nat, (DFixed 3%nat (Some ("'0'", true)))); (31%nat, (DStr 2%nat false false)); (32%nat, (DStr 2%nat false false)); (33%nat, (DObj "Inner")); (34%nat, (DObj "Msg/Sub")); (35%nat, (DList 2%nat false false (DInt 1%nat false))); (36%nat, (DList 2%nat false false (DInt 2%nat false))); (37%nat, (DList 2%nat false false (DInt 4%nat false))); (38%nat, (DList 2%nat false false (DInt 8%nat false))); (39%nat, (DList 2%nat false false (DInt 1%nat false))); (40%nat, (DList 2%nat false false (DInt 2%nat false))); (41%nat, (DList 2%nat false false (DInt 4%nat false))); (42%nat, (DList 2%nat false false (DInt 8%nat false))); (43%nat, (DList 2%nat false false (DInt 4%nat false))); (44%nat, (DList 2%nat false false (DInt 8%nat false))); (45%nat, (DList 2%nat false false (DStr 2%nat false false))); (46%nat, (DList 2%nat false false (DStr 2%nat false false))); (47%nat, (DList 2%nat false false (DFixed 3%nat (Some (" ", true))))); (48%nat, (DList 2%nat false false (DFixed 3%nat (Some ("'\x00'", false))))); (49%nat, (DList 2%nat false false (DObj "Inner2"))); (50%nat, (DList 2%nat false false (DObj "Msg/Grp"))); (51%nat, (DInt 4%nat false)); (52%nat, (DInt 4%nat false)); (53%nat, (DList 2%nat false false (DInt 4%nat false))); (54%nat, (DFixed 8%nat (Some (" ", true)))); (55%nat, (DFixed 8%nat (Some (" ", true)))); (56%nat, (DFixed 5%nat (Some ("'\x00'", false)))); (57%nat, (DStr 2%nat false false)); (58%nat, (DList 2%nat false false (DFixed 8%nat (Some (" ", true))))); (59%nat, (DInt 8%nat false)); (60%nat, (DInt 2%nat false)); (61%nat, (DInt 4%nat false)); (62%nat, (DDispatch [("1", "Logon"); ("2", "Logout"); ("3", "Logout"); ("7", "Logon"); ("9", "Empty")] false 60%nat true)); (63%nat, (DInt 4%nat false))])].
-Definition M_cells_c2_c3_v30 : value := (VObj [(VInt 255); (VStr [81;81])]).
-Eval vm_compute in ("<<<cells-c2|30>>>" ++ pyx_both M_cells_c2_c3 O_cells_c2_c3 "Msg/Grp" M_cells_c2_c3_v30).
-Definition M_cells_c2_c3_v31 : value := (VObj [(VInt 183); (VStr [195;169])]).
-Eval vm_compute in ("<<<cells-c2|31>>>" ++ pyx_both M_cells_c2_c3 O_cells_c2_c3 "Msg/Grp" M_cells_c2_c3_v31).
-Definition M_cells_c2_c3_v32 : value := (VObj [(VInt 0); (VInt 0); (VInt 0); (VInt 0); (VInt 0); (VInt 0); (VInt 0); (VInt 0); (VInt 0); (VInt 0); (VInt 0); (VInt 0); (VInt 0); (VInt 0); (VInt 0); (VInt 0); (VInt 0); (VInt 0); (VInt 0); (VInt 0); (VStr []); (VStr []); (VStr []); (VStr []); (VStr []); (VStr []); (VStr []); (VStr []); (VStr []); (VStr []); (VStr []); (VStr []); (VStr []); (VObj [(VInt 0); (VInt 0); (VStr [])]); (VObj [(VInt 0); (VStr []); (VObj [(VInt 0); (VList [])])]); (VList []); (VList []); (VList []); (VList []); (VList []); (VList []); (VList []); (VList []); (VList []); (VList []); (VList []); (VList []); (VList []); (VList []); (VList []); (VList []); (VInt 0); (VInt 0); (VList []); (VStr []); (VStr []); (VStr []); (VStr []); (VList []); (VInt 0); (VInt 1); (VInt 0); (VDyn "Logon" (VObj [(VInt 0); (VStr []); (VList [])])); (VInt 0)]).
-Eval vm_compute in ("<<<cells-c2|32>>>" ++ pyx_both M_cells_c2_c3 O_cells_c2_c3 "Msg" M_cells_c2_c3_v32).
-Definition M_cells_c2_c3_v33 : value := (VObj [(VInt 128); (VInt 128); (VInt 32768); (VInt 32768); (VInt 2147483648); (VInt 2147483648); (VInt 9223372036854775808); (VInt 9223372036854775808); (VInt 128); (VInt 128); (VInt 32768); (VInt 32768); (VInt 2147483648); (VInt 2147483648); (VInt 9223372036854775808); (VInt 9223372036854775808); (VInt 2147483648); (VInt 2147483648); (VInt 9223372036854775808); (VInt 9223372036854775808); (VStr [65]); (VStr [65]); (VStr [65]); (VStr [65]); (VStr [65]); (VStr [65]); (VStr [65]); (VStr [65]); (VStr [65]); (VStr [65]); (VStr [65]); (VStr [104;101;108;108;111]); (VStr [104;101;108;108;111]); (VObj [(VInt 128); (VInt 32768); (VStr [104;101;108;108;111])]); (VObj [(VInt 128); (VStr [104;101;108;108;111]); (VObj [(VInt 32768); (VList [(VInt 2147483648)])])]); (VList [(VInt 128)]); (VList [(VInt 32768)]); (VList [(VInt 2147483648)]); (VList [(VInt 9223372036854775808)]); (VList [(VInt 128)]); (VList [(VInt 32768)]); (VList [(VInt 2147483648)]); (VList [(VInt 9223372036854775808)]); (VList [(VInt 2147483648)]); (VList [(VInt 9223372036854775808)]); (VList [(VStr [104;101;108;108;111])]); (VList [(VStr [104;101;108;108;111])]); (VList [(VStr [65])]); (VList [(VStr [65])]); (VList [(VObj [(VInt 128); (VStr [65])])]); (VList [(VObj [(VInt 128); (VStr [65])])]); (VInt 2147483648); (VInt 2147483648); (VList [(VInt 2147483648)]); (VStr [65]); (VStr [65]); (VStr [65]); (VStr [104;101;108;108;111]); (VList [(VStr [65])]); (VInt 9223372036854775808); (VInt 1); (VInt 2147483648); (VDyn "Logon" (VObj [(VInt 128); (VStr [104;101;108;108;111]); (VList [(VInt 32768)])])); (VInt 2147483648)]).
-Eval vm_compute in ("<<<cells-c2|33>>>" ++ pyx_both M_cells_c2_c3 O_cells_c2_c3 "Msg" M_cells_c2_c3_v33).
-Definition M_cells_c2_c3_v34 : value := (VObj [(VInt 255); (VInt 255); (VInt 65535); (VInt 65535); (VInt 4294967295); (VInt 4294967295); (VInt 18446744073709551615); (VInt 18446744073709551615); (VInt 255); (VInt 255); (VInt 65535); (VInt 65535); (VInt 4294967295); (VInt 4294967295); (VInt 18446744073709551615); (VInt 18446744073709551615); (VInt 4294967295); (VInt 4294967295); (VInt 18446744073709551615); (VInt 18446744073709551615); (VStr [81;81;81;81;81;81]); (VStr [81;81;81;81]); (VStr [81;81;81;81;81]); (VStr [81;81;81;81;81;81]); (VStr [81;81;81;81;81;81;81]); (VStr [81;81;81;81;81;81;81;81]); (VStr [81;81;81;81;81;81;81;81;81]); (VStr [81;81;81;81;81;81;81;81;81;81]); (VStr [81;81;81;81;81;81;81;81;81;81;81]); (VStr [81;81;81;81;81;81;81]); (VStr [81;81;81]); (VStr [120;120;120;120;120;120;120;120;120;120;120;120;120;120;120;120;120;120;120;120;120;120;120;120;120;120;120;120;120;120;120;120;120;120;120;120;120;120;120;120;120;120;120;120;120;120;120;120;120;120;120;120;120;120;120;120;120;120;120;120;120;120;120;120;120;120;120;120;120;120;120;120;120;120;120;120;120;120;120;120;120;120;120;120;120;120;120;120;120;120;120;120;120;120;120;120;120;120;120;120;120;120;120;120;120;120;120;120;120;120;120;120;120;120;120;120;120;120;120;120;120;120;120;120;120;120;120;120;120;120]); (VStr [120;120;120;120;120;120;120;120;120;120;120;120;120;120;120;120;120;120;120;120;120;120;120;120;120;120;120;120;120;120;120;120;120;120;120;120;120;120;120;120;120;120;120;120;120;120;120;120;120;120;120;120;120;120;120;120;120;120;120;120;120;120;120;120;120;120;120;120;120;120;120;120;120;120;120;120;120;120;120;120;120;120;120;120;120;120;120;120;120;120;120;120;120;120;120;120;120;120;120;120;120;120;120;120;120;120;120;120;120;120;120;120;120;120;120;120;120;120;120;120;120;120;120;120;120;120;120;120;120;120]); (VObj [(VInt 255); (VInt 65535); (VStr [120;120;120;120;120;120;120;120;120;120;120;120;120;120;120;120;120;120;120;120;120;120;120;120;120;120;120;120;120;120;120;120;120;120;120;120;120;120;120;120;120;120;120;120;120;120;120;120;120;120;120;120;120;120;120;120;120;120;120;120;120;120;120;120;120;120;120;120;120;120;120;120;120;120;120;120;120;120;120;120;120;120;120;120;120;120;120;120;120;120;120;120;120;120;120;120;120;120;120;120;120;120;120;120;120;120;120;120;120;120;120;120;120;120;120;120;120;120;120;120;120;120;120;120;120;120;120;120;120;120])]); (VObj [(VInt 255); (VStr [120;120;120;120;120;120;120;120;120;120;120;120;120;120;120;120;120;120;120;120;120;120;120;120;120;120;120;120;120;120;120;120;120;120;120;120;120;120;120;120;120;120;120;120;120;120;120;120;120;120;120;120;120;120;120;120;120;120;120;120;120;120;120;120;120;120;120;120;120;120;120;120;120;120;120;120;120;120;120;120;120;120;120;120;120;120;120;120;120;120;120;120;120;120;120;120;120;120;120;120;120;120;120;120;120;120;120;120;120;120;120;120;120;120;120;120;120;120;120;120;120;120;120;120;120;120;120;120;120;120]); (VObj [(VInt 65535); (VList [(VInt 0); (VInt 0); (VInt 0); (VInt 0); (VInt 0); (VInt 0); (VInt 0); (VInt 0); (VInt 0); (VInt 0); (VInt 0); (VInt 0); (VInt 0); (VInt 0); (VInt 0); (VInt 0); (VInt 0); (VInt 0); (VInt 0); (VInt 0); (VInt 0); (VInt 0); (VInt 0); (VInt 0); (VInt 0); (VInt 0); (VInt 0); (VInt 0); (VInt 0); (VInt 0); (VInt 0); (VInt 0); (VInt 0); (VInt 0); (VInt 0); (VInt 0); (VInt 0); (VInt 0); (VInt 0); (VInt 0); (VInt 0); (VInt 0); (VInt 0); (VInt 0); (VInt 0); (VInt 0); (VInt 0); (VInt 0); (VInt 0); (VInt 0); (VInt 0); (VInt 0); (VInt 0); (VInt 0); (VInt 0); (VInt 0); (VInt 0); (VInt 0); (VInt 0); (VInt 0); (VInt 0); (VInt 0); (VInt 0); (VInt 0); (VInt 0); (VInt 0); (VInt 0); (VInt 0); (VInt 0); (VInt 0); (VInt 0); (VInt 0); (VInt 0); (VInt 0); (VInt 0); (VInt 0); (VInt 0); (VInt 0); (VInt 0); (VInt 0); (VInt 0); (VInt 0); (VInt 0); (VInt 0); (VInt 0); (VInt 0); (VInt 0); (VInt 0); (VInt 0); (VInt 0); (VInt 0); (VInt 0); (VInt 0); (VInt 0); (VInt 0); (VInt 0); (VInt 0); (VInt 0); (VInt 0); (VInt 0); (VInt 0); (VInt 0); (VInt 0); (VInt 0); (VInt 0); (VInt 0); (VInt 0); (VInt 0); (VInt 0); (VInt 0); (VInt 0); (VInt 0); (VInt 0); (VInt 0); (VInt 0); (VInt 0); (VInt 0); (VInt 0); (VInt 0); (VInt 0); (VInt 0); (VInt 0); (VInt 0); (VInt 0); (VInt 0); (VInt 0); (VInt 0); (VInt 0); (VInt 0); (VInt 0)])])]); (VList [(VInt 0); (VInt 0); (VInt 0); (VInt 0); (VInt 0); (VInt 0); (VInt 0); (VInt 0); (VInt 0); (VInt 0); (VInt 0); (VInt 0); (VInt 0); (VInt 0); (VInt 0); (VInt 0); (VInt 0); (VInt 0); (VInt 0); (VInt 0); (VInt 0); (VInt 0); (VInt 0); (VInt 0); (VInt 0); (VInt 0); (VInt 0); (VInt 0); (VInt 0); (VInt 0); (VInt 0); (VInt 0); (VInt 0); (VInt 0); (VInt 0); (VInt 0); (VInt 0); (VInt 0); (VInt 0); (VInt 0); (VInt 0); (VInt 0); (VInt 0); (VInt 0); (VInt 0); (VInt 0); (VInt 0); (VInt 0); (VInt 0); (VInt 0); (VInt 0); (VInt 0); (VInt 0); (VInt 0); (VInt 0); (VInt 0); (VInt 0); (VInt 0); (VInt 0); (VInt 0); (VInt 0); (VInt 0); (VInt 0); (VInt 0); (VInt 0); (VInt 0); (VInt 0); (VInt 0); (VInt 0); (VInt 0); (VInt 0); (VInt 0); (VInt 0); (VInt 0); (VInt 0); (VInt 0); (VInt 0); (VInt 0); (VInt 0); (VInt 0); (VInt 0); (VInt 0); (VInt 0); (VInt 0); (VInt 0); (VInt 0); (VInt 0); (VInt 0); (VInt 0); (VInt 0); (VInt 0); (VInt 0); (VInt 0); (VInt 0); (VInt 0); (VInt 0); (VInt 0); (VInt 0); (VInt 0); (VInt 0); (VInt 0); (VInt 0); (VInt 0); (VInt 0); (VInt 0); (VInt 0); (VInt 0); (VInt 0); (VInt 0); (VInt 0); (VInt 0); (VInt 0); (VInt 0); (VInt 0); (VInt 0); (VInt 0); (VInt 0); (VInt 0); (VInt 0); (VInt 0); (VInt 0); (VInt 0); (VInt 0); (VInt 0); (VInt 0); (VInt 0); (VInt 0); (VInt 0); (VInt 0); (VInt 0)]); (VList [(VInt 0); (VInt 0); (VInt 0); (VInt 0); (VInt 0); (VInt 0); (VInt 0); (VInt 0); (VInt 0); (VInt 0); (VInt 0); (VInt 0); (VInt 0); (VInt 0); (VInt 0); (VInt 0); (VInt 0); (VInt 0); (VInt 0); (VInt 0); (VInt 0); (VInt 0); (VInt 0); (VInt 0); (VInt 0); (VInt 0); (VInt 0); (VInt 0); (VInt 0); (VInt 0); (VInt 0); (VInt 0); (VInt 0); (VInt 0); (VInt 0); (VInt 0); (VInt 0); (VInt 0); (VInt 0); (VInt 0); (VInt 0); (VInt 0); (VInt 0); (VInt 0); (VInt 0); (VInt 0); (VInt 0); (VInt 0); (VInt 0); (VInt 0); (VInt 0); (VInt 0); (VInt 0); (VInt 0); (VInt 0); (VInt 0); (VInt 0); (VInt 0); (VInt 0); (VInt 0); (VInt 0); (VInt 0); (VInt 0); (VInt 0); (VInt 0); (VInt 0); (VInt 0); (VInt 0); (VInt 0); (VInt 0); (VInt 0); (VInt 0); (VInt 0); (VInt 0); (VInt 0); (VInt 0); (VInt 0); (VInt 0); (VInt 0); (VInt 0); (VInt 0); (VInt 0); (VInt 0); (VInt 0); (VInt 0); (VInt 0); (VInt 0); (VInt 0); (VInt 0); (VInt 0); (VInt 0); (VInt 0); (VInt 0); (VInt 0); (VInt 0); (VInt 0); (VInt 0); (VInt 0); (VInt 0); (VInt 0); (VInt 0); (VInt 0); (VInt 0); (VInt 0); (VInt 0); (VInt 0); (VInt 0); (VInt 0); (VInt 0); (VInt 0); (VInt 0); (VInt 0); (VInt 0); (VInt 0); (VInt 0); (VInt 0); (VInt 0); (VInt 0); (VInt 0); (VInt 0); (VInt 0); (VInt 0); (VInt 0); (VInt 0); (VInt 0); (VInt 0); (VInt 0); (VInt 0); (VInt 0); (VInt 0)]); (VList [(VInt 0); (VInt 0); (VInt 0); (VInt 0); (VInt 0); (VInt 0); (VInt 0); (VInt 0); (VInt 0); (VInt 0); (VInt 0); (VInt 0); (VInt 0); (VInt 0); (VInt 0); (VInt 0); (VInt 0); (VInt 0); (VInt 0); (VInt 0); (VInt 0); (VInt 0); (VInt 0); (VInt 0); (VInt 0); (VInt 0); (VInt 0); (VInt 0); (VInt 0); (VInt 0); (VInt 0); (VInt 0); (VInt 0); (VInt 0); (VInt 0); (VInt 0); (VInt 0); (VInt 0); (VInt 0); (VInt 0); (VInt 0); (VInt 0); (VInt 0); (VInt 0); (VInt 0); (VInt 0); (VInt 0); (VInt 0); (VInt 0); (VInt 0); (VInt 0); (VInt 0); (VInt 0); (VInt 0); (VInt 0); (VInt 0); (VInt 0); (VInt 0); (VInt 0); (VInt 0); (VInt 0); (VInt 0); (VInt 0); (VInt 0); (VInt 0); (VInt 0); (VInt 0); (VInt 0); (VInt 0); (VInt 0); (VInt 0); (VInt 0); (VInt 0); (VInt 0); (VInt 0); (VInt 0); (VInt 0); (VInt 0); (VInt 0); (VInt 0); (VInt 0); (VInt 0); (VInt 0); (VInt 0); (VInt 0); (VInt 0); (VInt 0); (VInt 0); (VInt 0); (VInt 0); (VInt 0); (VInt 0); (VInt 0); (VInt 0); (VInt 0); (VInt 0); (VInt 0); (VInt 0); (VInt 0); (VInt 0); (VInt 0); (VInt 0); (VInt 0); (VInt 0); (VInt 0); (VInt 0); (VInt 0); (VInt 0); (VInt 0); (VInt 0); (VInt 0); (VInt 0); (VInt 0); (VInt 0); (VInt 0); (VInt 0); (VInt 0); (VInt 0); (VInt 0); (VInt 0); (VInt 0); (VInt 0); (VInt 0); (VInt 0); (VInt 0); (VInt 0); (VInt 0); (VInt 0); (VInt 0); (VInt 0)]); (VList [(VInt 0); (VInt 0); (VInt 0); (VInt 0); (VInt 0); (VInt 0); (VInt 0); (VInt 0); (VInt 0); (VInt 0); (VInt 0); (VInt 0); (VInt 0); (VInt 0); (VInt 0); (VInt 0); (VInt 0); (VInt 0); (VInt 0); (VInt 0); (VInt 0); (VInt 0); (VInt 0); (VInt 0); (VInt 0); (VInt 0); (VInt 0); (VInt 0); (VInt 0); (VInt 0); (VInt 0); (VInt 0); (VInt 0); (VInt 0); (VInt 0); (VInt 0); (VInt 0); (VInt 0); (VInt 0); (VInt 0); (VInt 0); (VInt 0); (VInt 0); (VInt 0); (VInt 0); (VInt 0); (VInt 0); (VInt 0); (VInt 0); (VInt 0); (VInt 0); (VInt 0); (VInt 0); (VInt 0); (VInt 0); (VInt 0); (VInt 0); (VInt 0); (VInt 0); (VInt 0); (VInt 0); (VInt 0); (VInt 0); (VInt 0); (VInt 0); (VInt 0); (VInt 0); (VInt 0); (VInt 0); (VInt 0); (VInt 0); (VInt 0); (VInt 0); (VInt 0); (VInt 0); (VInt 0); (VInt 0); (VInt 0); (VInt 0); (VInt 0); (VInt 0); (VInt 0); (VInt 0); (VInt 0); (VInt 0); (VInt 0); (VInt 0); (VInt 0); (VInt 0); (VInt 0); (VInt 0); (VInt 0); (VInt 0); (VInt 0); (VInt 0); (VInt 0); (VInt 0); (VInt 0); (VInt 0); (VInt 0); (VInt 0); (VInt 0); (VInt 0); (VInt 0); (VInt 0); (VInt 0); (VInt 0); (VInt 0); (VInt 0); (VInt 0); (VInt 0); (VInt 0); (VInt 0); (VInt 0); (VInt 0); (VInt 0); (VInt 0); (VInt 0); (VInt 0); (VInt 0); (VInt 0); (VInt 0); (VInt 0); (VInt 0); (VInt 0); (VInt 0); (VInt 0); (VInt 0); (VInt 0); (VInt 0)]); (VList [(VInt 0); (VInt 0); (VInt 0); (VInt 0); (VInt 0); (VInt 0); (VInt 0); (VInt 0); (VInt 0); (VInt 0); (VInt 0); (VInt 0); (VInt 0); (VInt 0); (VInt 0); (VInt 0); (VInt 0); (VInt 0); (VInt 0); (VInt 0); (VInt 0); (VInt 0); (VInt 0); (VInt 0); (VInt 0); (VInt 0); (VInt 0); (VInt 0); (VInt 0); (VInt 0); (VInt 0); (VInt 0); (VInt 0); (VInt 0); (VInt 0); (VInt 0); (VInt 0); (VInt 0); (VInt 0); (VInt 0); (VInt 0); (VInt 0); (VInt 0); (VInt 0); (VInt 0); (VInt 0); (VInt 0); (VInt 0); (VInt 0); (VInt 0); (VInt 0); (VInt 0); (VInt 0); (VInt 0); (VInt 0); (VInt 0); (VInt 0); (VInt 0); (VInt 0); (VInt 0); (VInt 0); (VInt 0); (VInt 0); (VInt 0); (VInt 0); (VInt 0); (VInt 0); (VInt 0); (VInt 0); (VInt 0); (VInt 0); (VInt 0); (VInt 0); (VInt 0); (VInt 0); (VInt 0); (VInt 0); (VInt 0); (VInt 0); (VInt 0); (VInt 0); (VInt 0); (VInt 0); (VInt 0); (VInt 0); (VInt 0); (VInt 0); (VInt 0); (VInt 0); (VInt 0); (VInt 0); (VInt 0); (VInt 0); (VInt 0); (VInt 0); (VInt 0); (VInt 0); (VInt 0); (VInt 0); (VInt 0); (VInt 0); (VInt 0); (VInt 0); (VInt 0); (VInt 0); (VInt 0); (VInt 0); (VInt 0); (VInt 0); (VInt 0); (VInt 0); (VInt 0); (VInt 0); (VInt 0); (VInt 0); (VInt 0); (VInt 0); (VInt 0); (VInt 0); (VInt 0); (VInt 0); (VInt 0); (VInt 0); (VInt 0); (VInt 0); (VInt 0); (VInt 0); (VInt 0); (VInt 0); (VInt 0)]); (VList [(VInt 0); (VInt 0); (VInt 0); (VInt 0); (VInt 0); (VInt 0); (VInt 0); (VInt 0); (VInt 0); (VInt 0); (VInt 0); (VInt 0); (VInt 0); (VInt 0); (VInt 0); (VInt 0); (VInt 0); (VInt 0); (VInt 0); (VInt 0); (VInt 0); (VInt 0); (VInt 0); (VInt 0); (VInt 0); (VInt 0); (VInt 0); (VInt 0); (VInt 0); (VInt 0); (VInt 0); (VInt 0); (VInt 0); (VInt 0); (VInt 0); (VInt 0); (VInt 0); (VInt 0); (VInt 0); (VInt 0); (VInt 0); (VInt 0); (VInt 0); (VInt 0); (VInt 0); (VInt 0); (VInt 0); (VInt 0); (VInt 0); (VInt 0); (VInt 0); (VInt 0); (VInt 0); (VInt 0); (VInt 0); (VInt 0); (VInt 0); (VInt 0); (VInt 0); (VInt 0); (VInt 0); (VInt 0); (VInt 0); (VInt 0); (VInt 0); (VInt 0); (VInt 0); (VInt 0); (VInt 0); (VInt 0); (VInt 0); (VInt 0); (VInt 0); (VInt 0); (VInt 0); (VInt 0); (VInt 0); (VInt 0); (VInt 0); (VInt 0); (VInt 0); (VInt 0); (VInt 0); (VInt 0); (VInt 0); (VInt 0); (VInt 0); (VInt 0); (VInt 0); (VInt 0); (VInt 0); (VInt 0); (VInt 0); (VInt 0); (VInt 0); (VInt 0); (VInt 0); (VInt 0); (VInt 0); (VInt 0); (VInt 0); (VInt 0); (VInt 0); (VInt 0); (VInt 0); (VInt 0); (VInt 0); (VInt 0); (VInt 0); (VInt 0); (VInt 0); (VInt 0); (VInt 0); (VInt 0); (VInt 0); (VInt 0); (VInt 0); (VInt 0); (VInt 0); (VInt 0); (VInt 0); (VInt 0); (VInt 0); (VInt 0); (VInt 0); (VInt 0); (VInt 0); (VInt 0); (VInt 0); (VInt 0)]); (VList [(VInt 0); (VInt 0); (VInt 0); (VInt 0); (VInt 0); (VInt 0); (VInt 0); (VInt 0); (VInt 0); (VInt 0); (VInt 0); (VInt 0); (VInt 0); (VInt 0); (VInt 0); (VInt 0); (VInt 0); (VInt 0); (VInt 0); (VInt 0); (VInt 0); (VInt 0); (VInt 0); (VInt 0); (VInt 0); (VInt 0); (VInt 0); (VInt 0); (VInt 0); (VInt 0); (VInt 0); (VInt 0); (VInt 0); (VInt 0); (VInt 0); (VInt 0); (VInt 0); (VInt 0); (VInt 0); (VInt 0); (VInt 0); (VInt 0); (VInt 0); (VInt 0); (VInt 0); (VInt 0); (VInt 0); (VInt 0); (VInt 0); (VInt 0); (VInt 0); (VInt 0); (VInt 0); (VInt 0); (VInt 0); (VInt 0); (VInt 0); (VInt 0); (VInt 0); (VInt 0); (VInt 0); (VInt 0); (VInt 0); (VInt 0); (VInt 0); (VInt 0); (VInt 0); (VInt 0); (VInt 0); (VInt 0); (VInt 0); (VInt 0); (VInt 0); (VInt 0); (VInt 0); (VInt 0); (VInt 0); (VInt 0); (VInt 0); (VInt 0); (VInt 0); (VInt 0); (VInt 0); (VInt 0); (VInt 0); (VInt 0); (VInt 0); (VInt 0); (VInt 0); (VInt 0); (VInt 0); (VInt 0); (VInt 0); (VInt 0); (VInt 0); (VInt 0); (VInt 0); (VInt 0); (VInt 0); (VInt 0); (VInt 0); (VInt 0); (VInt 0); (VInt 0); (VInt 0); (VInt 0); (VInt 0); (VInt 0); (VInt 0); (VInt 0); (VInt 0); (VInt 0); (VInt 0); (VInt 0); (VInt 0); (VInt 0); (VInt 0); (VInt 0); (VInt 0); (VInt 0); (VInt 0); (VInt 0); (VInt 0); (VInt 0); (VInt 0); (VInt 0); (VInt 0); (VInt 0); (VInt 0); (VInt 0)]); (VList [(VInt 0); (VInt 0); (VInt 0); (VInt 0); (VInt 0); (VInt 0); (VInt 0); (VInt 0); (VInt 0); (VInt 0); (VInt 0); (VInt 0); (VInt 0); (VInt 0); (VInt 0); (VInt 0); (VInt 0); (VInt 0); (VInt 0); (VInt 0); (VInt 0); (VInt 0); (VInt 0); (VInt 0); (VInt 0); (VInt 0); (VInt 0); (VInt 0); (VInt 0); (VInt 0); (VInt 0); (VInt 0); (VInt 0); (VInt 0); (VInt 0); (VInt 0); (VInt 0); (VInt 0); (VInt 0); (VInt 0); (VInt 0); (VInt 0); (VInt 0); (VInt 0); (VInt 0); (VInt 0); (VInt 0); (VInt 0); (VInt 0); (VInt 0); (VInt 0); (VInt 0); (VInt 0); (VInt 0); (VInt 0); (VInt 0); (VInt 0); (VInt 0); (VInt 0); (VInt 0); (VInt 0); (VInt 0); (VInt 0); (VInt 0); (VInt 0); (VInt 0); (VInt 0); (VInt 0); (VInt 0); (VInt 0); (VInt 0); (VInt 0); (VInt 0); (VInt 0); (VInt 0); (VInt 0); (VInt 0); (VInt 0); (VInt 0); (VInt 0); (VInt 0); (VInt 0); (VInt 0); (VInt 0); (VInt 0); (VInt 0); (VInt 0); (VInt 0); (VInt 0); (VInt 0); (VInt 0); (VInt 0); (VInt 0); (VInt 0); (VInt 0); (VInt 0); (VInt 0); (VInt 0); (VInt 0); (VInt 0); (VInt 0); (VInt 0); (VInt 0); (VInt 0); (VInt 0); (VInt 0); (VInt 0); (VInt 0); (VInt 0); (VInt 0); (VInt 0); (VInt 0); (VInt 0); (VInt 0); (VInt 0); (VInt 0); (VInt 0); (VInt 0); (VInt 0); (VInt 0); (VInt 0); (VInt 0); (VInt 0); (VInt 0); (VInt 0); (VInt 0); (VInt 0); (VInt 0); (VInt 0); (VInt 0)]); (VList [(VInt 0); (VInt 0); (VInt 0); (VInt 0); (VInt 0); (VInt 0); (VInt 0); (VInt 0); (VInt 0); (VInt 0); (VInt 0); (VInt 0); (VInt 0); (VInt 0); (VInt 0); (VInt 0); (VInt 0); (VInt 0); (VInt 0); (VInt 0); (VInt 0); (VInt 0); (VInt 0); (VInt 0); (VInt 0); (VInt 0); (VInt 0); (VInt 0); (VInt 0); (VInt 0); (VInt 0); (VInt 0); (VInt 0); (VInt 0); (VInt 0); (VInt 0); (VInt 0); (VInt 0); (VInt 0); (VInt 0); (VInt 0); (VInt 0); (VInt 0); (VInt 0); (VInt 0); (VInt 0); (VInt 0); (VInt 0); (VInt 0); (VInt 0); (VInt 0); (VInt 0); (VInt 0); (VInt 0); (VInt 0); (VInt 0); (VInt 0); (VInt 0); (VInt 0); (VInt 0); (VInt 0); (VInt 0); (VInt 0); (VInt 0); (VInt 0); (VInt 0); (VInt 0); (VInt 0); (VInt 0); (VInt 0); (VInt 0); (VInt 0); (VInt 0); (VInt 0); (VInt 0); (VInt 0); (VInt 0); (VInt 0); (VInt 0); (VInt 0); (VInt 0); (VInt 0); (VInt 0); (VInt 0); (VInt 0); (VInt 0); (VInt 0); (VInt 0); (VInt 0); (VInt 0); (VInt 0); (VInt 0); (VInt 0); (VInt 0); (VInt 0); (VInt 0); (VInt 0); (VInt 0); (VInt 0); (VInt 0); (VInt 0); (VInt 0); (VInt 0); (VInt 0); (VInt 0); (VInt 0); (VInt 0); (VInt 0); (VInt 0); (VInt 0); (VInt 0); (VInt 0); (VInt 0); (VInt 0); (VInt 0); (VInt 0); (VInt 0); (VInt 0); (VInt 0); (VInt 0); (VInt 0); (VInt 0); (VInt 0); (VInt 0); (VInt 0); (VInt 0); (VInt 0); (VInt 0); (VInt 0); (VInt 0)]); (VList [(VInt 0); (VInt 0); (VInt 0); (VInt 0); (VInt 0); (VInt 0); (VInt 0); (VInt 0); (VInt 0); (VInt 0); (VInt 0); (VInt 0); (VInt 0); (VInt 0); (VInt 0); (VInt 0); (VInt 0); (VInt 0); (VInt 0); (VInt 0); (VInt 0); (VInt 0); (VInt 0); (VInt 0); (VInt 0); (VInt 0); (VInt 0); (VInt 0); (VInt 0); (VInt 0); (VInt 0); (VInt 0); (VInt 0); (VInt 0); (VInt 0); (VInt 0); (VInt 0); (VInt 0); (VInt 0); (VInt 0); (VInt 0); (VInt 0); (VInt 0); (VInt 0); (VInt 0); (VInt 0); (VInt 0); (VInt 0); (VInt 0); (VInt 0); (VInt 0); (VInt 0); (VInt 0); (VInt 0); (VInt 0); (VInt 0); (VInt 0); (VInt 0); (VInt 0); (VInt 0); (VInt 0); (VInt 0); (VInt 0); (VInt 0); (VInt 0); (VInt 0); (VInt 0); (VInt 0); (VInt 0); (VInt 0); (VInt 0); (VInt 0); (VInt 0); (VInt 0); (VInt 0); (VInt 0); (VInt 0); (VInt 0); (VInt 0); (VInt 0); (VInt 0); (VInt 0); (VInt 0); (VInt 0); (VInt 0); (VInt 0); (VInt 0); (VInt 0); (VInt 0); (VInt 0); (VInt 0); (VInt 0); (VInt 0); (VInt 0); (VInt 0); (VInt 0); (VInt 0); (VInt 0); (VInt 0); (VInt 0); (VInt 0); (VInt 0); (VInt 0); (VInt 0); (VInt 0); (VInt 0); (VInt 0); (VInt 0); (VInt 0); (VInt 0); (VInt 0); (VInt 0); (VInt 0); (VInt 0); (VInt 0); (VInt 0); (VInt 0); (VInt 0); (VInt 0); (VInt 0); (VInt 0); (VInt 0); (VInt 0); (VInt 0); (VInt 0); (VInt 0); (VInt 0); (VInt 0); (VInt 0); (VInt 0)]); (VList [(VStr []); (VStr []); (VStr []); (VStr []); (VStr []); (VStr []); (VStr []); (VStr []); (VStr []); (VStr []); (VStr []); (VStr []); (VStr []); (VStr []); (VStr []); (VStr []); (VStr []); (VStr []); (VStr []); (VStr []); (VStr []); (VStr []); (VStr []); (VStr []); (VStr []); (VStr []); (VStr []); (VStr []); (VStr []); (VStr []); (VStr []); (VStr []); (VStr []); (VStr []); (VStr []); (VStr []); (VStr []); (VStr []); (VStr []); (VStr []); (VStr []); (VStr []); (VStr []); (VStr []); (VStr []); (VStr []); (VStr []); (VStr []); (VStr []); (VStr []); (VStr []); (VStr []); (VStr []); (VStr []); (VStr []); (VStr []); (VStr []); (VStr []); (VStr []); (VStr []); (VStr []); (VStr []); (VStr []); (VStr []); (VStr []); (VStr []); (VStr []); (VStr []); (VStr []); (VStr []); (VStr []); (VStr []); (VStr []); (VStr []); (VStr []); (VStr []); (VStr []); (VStr []); (VStr []); (VStr []); (VStr []); (VStr []); (VStr []); (VStr []); (VStr []); (VStr []); (VStr []); (VStr []); (VStr []); (VStr []); (VStr []); (VStr []); (VStr []); (VStr []); (VStr []); (VStr []); (VStr []); (VStr []); (VStr []); (VStr []); (VStr []); (VStr []); (VStr []); (VStr []); (VStr []); (VStr []); (VStr []); (VStr []); (VStr []); (VStr []); (VStr []); (VStr []); (VStr []); (VStr []); (VStr []); (VStr []); (VStr []); (VStr []); (VStr []); (VStr []); (VStr []); (VStr []); (VStr []); (VStr []); (VStr []); (VStr []); (VStr []); (VStr []); (VStr []); (VStr [])]); (VList [(VStr []); (VStr []); (VStr []); (VStr []); (VStr []); (VStr []); (VStr []); (VStr []); (VStr []); (VStr []); (VStr []); (VStr []); (VStr []); (VStr []); (VStr []); (VStr []); (VStr []); (VStr []); (VStr []); (VStr []); (VStr []); (VStr []); (VStr []); (VStr []); (VStr []); (VStr []); (VStr []); (VStr []); (VStr []); (VStr []); (VStr []); (VStr []); (VStr []); (VStr []); (VStr []); (VStr []); (VStr []); (VStr []); (VStr []); (VStr []); (VStr []); (VStr []); (VStr []); (VStr []); (VStr []); (VStr []); (VStr []); (VStr []); (VStr []); (VStr []); (VStr []); (VStr []); (VStr []); (VStr []); (VStr []); (VStr []); (VStr []); (VStr []); (VStr []); (VStr []); (VStr []); (VStr []); (VStr []); (VStr []); (VStr []); (VStr []); (VStr []); (VStr []); (VStr []); (VStr []); (VStr []); (VStr []); (VStr []); (VStr []); (VStr []); (VStr []); (VStr []); (VStr []); (VStr []); (VStr []); (VStr []); (VStr []); (VStr []); (VStr []); (VStr []); (VStr []); (VStr []); (VStr []); (VStr []); (VStr []); (VStr []); (VStr []); (VStr []); (VStr []); (VStr []); (VStr []); (VStr []); (VStr []); (VStr []); (VStr []); (VStr []); (VStr []); (VStr []); (VStr []); (VStr []); (VStr []); (VStr []); (VStr []); (VStr []); (VStr []); (VStr []); (VStr []); (VStr []); (VStr []); (VStr []); (VStr []); (VStr []); (VStr []); (VStr []); (VStr []); (VStr []); (VStr []); (VStr []); (VStr []); (VStr []); (VStr []); (VStr []); (VStr []); (VStr []); (VStr [])]); (VList [(VStr []); (VStr []); (VStr []); (VStr []); (VStr []); (VStr []); (VStr []); (VStr []); (VStr []); (VStr []); (VStr []); (VStr []); (VStr []); (VStr []); (VStr []); (VStr []); (VStr []); (VStr []); (VStr []); (VStr []); (VStr []); (VStr []); (VStr []); (VStr []); (VStr []); (VStr []); (VStr []); (VStr []); (VStr []); (VStr []); (VStr []); (VStr []); (VStr []); (VStr []); (VStr []); (VStr []); (VStr []); (VStr []); (VStr []); (VStr []); (VStr []); (VStr []); (VStr []); (VStr []); (VStr []); (VStr []); (VStr []); (VStr []); (VStr []); (VStr []); (VStr []); (VStr []); (VStr []); (VStr []); (VStr []); (VStr []); (VStr []); (VStr []); (VStr []); (VStr []); (VStr []); (VStr []); (VStr []); (VStr []); (VStr []); (VStr []); (VStr []); (VStr []); (VStr []); (VStr []); (VStr []); (VStr []); (VStr []); (VStr []); (VStr []); (VStr []); (VStr []); (VStr []); (VStr []); (VStr []); (VStr []); (VStr []); (VStr []); (VStr []); (VStr []); (VStr []); (VStr []); (VStr []); (VStr []); (VStr []); (VStr []); (VStr []); (VStr []); (VStr []); (VStr []); (VStr []); (VStr []); (VStr []); (VStr []); (VStr []); (VStr []); (VStr []); (VStr []); (VStr []); (VStr []); (VStr []); (VStr []); (VStr []); (VStr []); (VStr []); (VStr []); (VStr []); (VStr []); (VStr []); (VStr []); (VStr []); (VStr []); (VStr []); (VStr []); (VStr []); (VStr []); (VStr []); (VStr []); (VStr []); (VStr []); (VStr []); (VStr []); (VStr []); (VStr []); (VStr [])]); (VList [(VStr []); (VStr []); (VStr []); (VStr []); (VStr []); (VStr []); (VStr []); (VStr []); (VStr []); (VStr []); (VStr []); (VStr []); (VStr []); (VStr []); (VStr []); (VStr []); (VStr []); (VStr []); (VStr []); (VStr []); (VStr []); (VStr []); (VStr []); (VStr []); (VStr []); (VStr []); (VStr []); (VStr []); (VStr []); (VStr []); (VStr []); (VStr []); (VStr []); (VStr []); (VStr []); (VStr []); (VStr []); (VStr []); (VStr []); (VStr []); (VStr []); (VStr []); (VStr []); (VStr []); (VStr []); (VStr []); (VStr []); (VStr []); (VStr []); (VStr []); (VStr []); (VStr []); (VStr []); (VStr []); (VStr []); (VStr []); (VStr []); (VStr []); (VStr []); (VStr []); (VStr []); (VStr []); (VStr []); (VStr []); (VStr []); (VStr []); (VStr []); (VStr []); (VStr []); (VStr []); (VStr []); (VStr []); (VStr []); (VStr []); (VStr []); (VStr []); (VStr []); (VStr []); (VStr []); (VStr []); (VStr []); (VStr []); (VStr []); (VStr []); (VStr []); (VStr []); (VStr []); (VStr []); (VStr []); (VStr []); (VStr []); (VStr []); (VStr []); (VStr []); (VStr []); (VStr []); (VStr []); (VStr []); (VStr []); (VStr []); (VStr []); (VStr []); (VStr []); (VStr []); (VStr []); (VStr []); (VStr []); (VStr []); (VStr []); (VStr []); (VStr []); (VStr []); (VStr []); (VStr []); (VStr []); (VStr []); (VStr []); (VStr []); (VStr []); (VStr []); (VStr []); (VStr []); (VStr []); (VStr []); (VStr []); (VStr []); (VStr []); (VStr []); (VStr []); (VStr [])]); (VList [(VObj [(VInt 0); (VStr [])]); (VObj [(VInt 0); (VStr [])]); (VObj [(VInt 0); (VStr [])]); (VObj [(VInt 0); (VStr [])]); (VObj [(VInt 0); (VStr [])]); (VObj [(VInt 0); (VStr [])]); (VObj [(VInt 0); (VStr [])]); (VObj [(VInt 0); (VStr [])]); (VObj [(VInt 0); (VStr [])]); (VObj [(VInt 0); (VStr [])]); (VObj [(VInt 0); (VStr [])]); (VObj [(VInt 0); (VStr [])]); (VObj [(VInt 0); (VStr [])]); (VObj [(VInt 0); (VStr [])]); (VObj [(VInt 0); (VStr [])]); (VObj [(VInt 0); (VStr [])]); (VObj [(VInt 0); (VStr [])]); (VObj [(VInt 0); (VStr [])]); (VObj [(VInt 0); (VStr [])]); (VObj [(VInt 0); (VStr [])]); (VObj [(VInt 0); (VStr [])]); (VObj [(VInt 0); (VStr [])]); (VObj [(VInt 0); (VStr [])]); (VObj [(VInt 0); (VStr [])]); (VObj [(VInt 0); (VStr [])]); (VObj [(VInt 0); (VStr [])]); (VObj [(VInt 0); (VStr [])]); (VObj [(VInt 0); (VStr [])]); (VObj [(VInt 0); (VStr [])]); (VObj [(VInt 0); (VStr [])]); (VObj [(VInt 0); (VStr [])]); (VObj [(VInt 0); (VStr [])]); (VObj [(VInt 0); (VStr [])]); (VObj [(VInt 0); (VStr [])]); (VObj [(VInt 0); (VStr [])]); (VObj [(VInt 0); (VStr [])]); (VObj [(VInt 0); (VStr [])]); (VObj [(VInt 0); (VStr [])]); (VObj [(VInt 0); (VStr [])]); (VObj [(VInt 0); (VStr [])]); (VObj [(VInt 0); (VStr [])]); (VObj [(VInt 0); (VStr [])]); (VObj [(VInt 0); (VStr [])]); (VObj [(VInt 0); (VStr [])]); (VObj [(VInt 0); (VStr [])]); (VObj [(VInt 0); (VStr [])]); (VObj [(VInt 0); (VStr [])]); (VObj [(VInt 0); (VStr [])]); (VObj [(VInt 0); (VStr [])]); (VObj [(VInt 0); (VStr [])]); (VObj [(VInt 0); (VStr [])]); (VObj [(VInt 0); (VStr [])]); (VObj [(VInt 0); (VStr [])]); (VObj [(VInt 0); (VStr [])]); (VObj [(VInt 0); (VStr [])]); (VObj [(VInt 0); (VStr [])]); (VObj [(VInt 0); (VStr [])]); (VObj [(VInt 0); (VStr [])]); (VObj [(VInt 0); (VStr [])]); (VObj [(VInt 0); (VStr [])]); (VObj [(VInt 0); (VStr [])]); (VObj [(VInt 0); (VStr [])]); (VObj [(VInt 0); (VStr [])]); (VObj [(VInt 0); (VStr [])]); (VObj [(VInt 0); (VStr [])]); (VObj [(VInt 0); (VStr [])]); (VObj [(VInt 0); (VStr [])]); (VObj [(VInt 0); (VStr [])]); (VObj [(VInt 0); (VStr [])]); (VObj [(VInt 0); (VStr [])]); (VObj [(VInt 0); (VStr [])]); (VObj [(VInt 0); (VStr [])]); (VObj [(VInt 0); (VStr [])]); (VObj [(VInt 0); (VStr [])]); (VObj [(VInt 0); (VStr [])]); (VObj [(VInt 0); (VStr [])]); (VObj [(VInt 0); (VStr [])]); (VObj [(VInt 0); (VStr [])]); (VObj [(VInt 0); (VStr [])]); (VObj [(VInt 0); (VStr [])]); (VObj [(VInt 0); (VStr [])]); (VObj [(VInt 0); (VStr [])]); (VObj [(VInt 0); (VStr [])]); (VObj [(VInt 0); (VStr [])]); (VObj [(VInt 0); (VStr [])]); (VObj [(VInt 0); (VStr [])]); (VObj [(VInt 0); (VStr [])]); (VObj [(VInt 0); (VStr [])]); (VObj [(VInt 0); (VStr [])]); (VObj [(VInt 0); (VStr [])]); (VObj [(VInt 0); (VStr [])]); (VObj [(VInt 0); (VStr [])]); (VObj [(VInt 0); (VStr [])]); (VObj [(VInt 0); (VStr [])]); (VObj [(VInt 0); (VStr [])]); (VObj [(VInt 0); (VStr [])]); (VObj [(VInt 0); (VStr [])]); (VObj [(VInt 0); (VStr [])]); (VObj [(VInt 0); (VStr [])]); (VObj [(VInt 0); (VStr [])]); (VObj [(VInt 0); (VStr [])]); (VObj [(VInt 0); (VStr [])]); (VObj [(VInt 0); (VStr [])]); (VObj [(VInt 0); (VStr [])]); (VObj [(VInt 0); (VStr [])]); (VObj [(VInt 0); (VStr [])]); (VObj [(VInt 0); (VStr [])]); (VObj [(VInt 0); (VStr [])]); (VObj [(VInt 0); (VStr [])]); (VObj [(VInt 0); (VStr [])]); (VObj [(VInt 0); (VStr [])]); (VObj [(VInt 0); (VStr [])]); (VObj [(VInt 0); (VStr [])]); (VObj [(VInt 0); (VStr [])]); (VObj [(VInt 0); (VStr [])]); (VObj [(VInt 0); (VStr [])]); (VObj [(VInt 0); (VStr [])]); (VObj [(VInt 0); (VStr [])]); (VObj [(VInt 0); (VStr [])]); (VObj [(VInt 0); (VStr [])]); (VObj [(VInt 0); (VStr [])]); (VObj [(VInt 0); (VStr [])]); (VObj [(VInt 0); (VStr [])]); (VObj [(VInt 0); (VStr [])]); (VObj [(VInt 0); (VStr [])]); (VObj [(VInt 0); (VStr [])]); (VObj [(VInt 0); (VStr [])]); (VObj [(VInt 0); (VStr [])]); (VObj [(VInt 0); (VStr [])]); (VObj [(VInt 0); (VStr [])])]); (VList [(VObj [(VInt 0); (VStr [])]); (VObj [(VInt 0); (VStr [])]); (VObj [(VInt 0); (VStr [])]); (VObj [(VInt 0); (VStr [])]); (VObj [(VInt 0); (VStr [])]); (VObj [(VInt 0); (VStr [])]); (VObj [(VInt 0); (VStr [])]); (VObj [(VInt 0); (VStr [])]); (VObj [(VInt 0); (VStr [])]); (VObj [(VInt 0); (VStr [])]); (VObj [(VInt 0); (VStr [])]); (VObj [(VInt 0); (VStr [])]); (VObj [(VInt 0); (VStr [])]); (VObj [(VInt 0); (VStr [])]); (VObj [(VInt 0); (VStr [])]); (VObj [(VInt 0); (VStr [])]); (VObj [(VInt 0); (VStr [])]); (VObj [(VInt 0); (VStr [])]); (VObj [(VInt 0); (VStr [])]); (VObj [(VInt 0); (VStr [])]); (VObj [(VInt 0); (VStr [])]); (VObj [(VInt 0); (VStr [])]); (VObj [(VInt 0); (VStr [])]); (VObj [(VInt 0); (VStr [])]); (VObj [(VInt 0); (VStr [])]); (VObj [(VInt 0); (VStr [])]); (VObj [(VInt 0); (VStr [])]); (VObj [(VInt 0); (VStr [])]); (VObj [(VInt 0); (VStr [])]); (VObj [(VInt 0); (VStr [])]); (VObj [(VInt 0); (VStr [])]); (VObj [(VInt 0); (VStr [])]); (VObj [(VInt 0); (VStr [])]); (VObj [(VInt 0); (VStr [])]); (VObj [(VInt 0); (VStr [])]); (VObj [(VInt 0); (VStr [])]); (VObj [(VInt 0); (VStr [])]); (VObj [(VInt 0); (VStr [])]); (VObj [(VInt 0); (VStr [])]); (VObj [(VInt 0); (VStr [])]); (VObj [(VInt 0); (VStr [])]); (VObj [(VInt 0); (VStr [])]); (VObj [(VInt 0); (VStr [])]); (VObj [(VInt 0); (VStr [])]); (VObj [(VInt 0); (VStr [])]); (VObj [(VInt 0); (VStr [])]); (VObj [(VInt 0); (VStr [])]); (VObj [(VInt 0); (VStr [])]); (VObj [(VInt 0); (VStr [])]); (VObj [(VInt 0); (VStr [])]); (VObj [(VInt 0); (VStr [])]); (VObj [(VInt 0); (VStr [])]); (VObj [(VInt 0); (VStr [])]); (VObj [(VInt 0); (VStr [])]); (VObj [(VInt 0); (VStr [])]); (VObj [(VInt 0); (VStr [])]); (VObj [(VInt 0); (VStr [])]); (VObj [(VInt 0); (VStr [])]); (VObj [(VInt 0); (VStr [])]); (VObj [(VInt 0); (VStr [])]); (VObj [(VInt 0); (VStr [])]); (VObj [(VInt 0); (VStr [])]); (VObj [(VInt 0); (VStr [])]); (VObj [(VInt 0); (VStr [])]); (VObj [(VInt 0); (VStr [])]); (VObj [(VInt 0); (VStr [])]); (VObj [(VInt 0); (VStr [])]); (VObj [(VInt 0); (VStr [])]); (VObj [(VInt 0); (VStr [])]); (VObj [(VInt 0); (VStr [])]); (VObj [(VInt 0); (VStr [])]); (VObj [(VInt 0); (VStr [])]); (VObj [(VInt 0); (VStr [])]); (VObj [(VInt 0); (VStr [])]); (VObj [(VInt 0); (VStr [])]); (VObj [(VInt 0); (VStr [])]); (VObj [(VInt 0); (VStr [])]); (VObj [(VInt 0); (VStr [])]); (VObj [(VInt 0); (VStr [])]); (VObj [(VInt 0); (VStr [])]); (VObj [(VInt 0); (VStr [])]); (VObj [(VInt 0); (VStr [])]); (VObj [(VInt 0); (VStr [])]); (VObj [(VInt 0); (VStr [])]); (VObj [(VInt 0); (VStr [])]); (VObj [(VInt 0); (VStr [])]); (VObj [(VInt 0); (VStr [])]); (VObj [(VInt 0); (VStr [])]); (VObj [(VInt 0); (VStr [])]); (VObj [(VInt 0); (VStr [])]); (VObj [(VInt 0); (VStr [])]); (VObj [(VInt 0); (VStr [])]); (VObj [(VInt 0); (VStr [])]); (VObj [(VInt 0); (VStr [])]); (VObj [(VInt 0); (VStr [])]); (VObj [(VInt 0); (VStr [])]); (VObj [(VInt 0); (VStr [])]); (VObj [(VInt 0); (VStr [])]); (VObj [(VInt 0); (VStr [])]); (VObj [(VInt 0); (VStr [])]); (VObj [(VInt 0); (VStr [])]); (VObj [(VInt 0); (VStr [])]); (VObj [(VInt 0); (VStr [])]); (VObj [(VInt 0); (VStr [])]); (VObj [(VInt 0); (VStr [])]); (VObj [(VInt 0); (VStr [])]); (VObj [(VInt 0); (VStr [])]); (VObj [(VInt 0); (VStr [])]); (VObj [(VInt 0); (VStr [])]); (VObj [(VInt 0); (VStr [])]); (VObj [(VInt 0); (VStr [])]); (VObj [(VInt 0); (VStr [])]); (VObj [(VInt 0); (VStr [])]); (VObj [(VInt 0); (VStr [])]); (VObj [(VInt 0); (VStr [])]); (VObj [(VInt 0); (VStr [])]); (VObj [(VInt 0); (VStr [])]); (VObj [(VInt 0); (VStr [])]); (VObj [(VInt 0); (VStr [])]); (VObj [(VInt 0); (VStr [])]); (VObj [(VInt 0); (VStr [])]); (VObj [(VInt 0); (VStr [])]); (VObj [(VInt 0); (VStr [])]); (VObj [(VInt 0); (VStr [])]); (VObj [(VInt 0); (VStr [])]); (VObj [(VInt 0); (VStr [])]); (VObj [(VInt 0); (VStr [])]); (VObj [(VInt 0); (VStr [])]); (VObj [(VInt 0); (VStr [])]); (VObj [(VInt 0); (VStr [])])]); (VInt 4294967295); (VInt 4294967295); (VList [(VInt 0); (VInt 0); (VInt 0); (VInt 0); (VInt 0); (VInt 0); (VInt 0); (VInt 0); (VInt 0); (VInt 0); (VInt 0); (VInt 0); (VInt 0); (VInt 0); (VInt 0); (VInt 0); (VInt 0); (VInt 0); (VInt 0); (VInt 0); (VInt 0); (VInt 0); (VInt 0); (VInt 0); (VInt 0); (VInt 0); (VInt 0); (VInt 0); (VInt 0); (VInt 0); (VInt 0); (VInt 0); (VInt 0); (VInt 0); (VInt 0); (VInt 0); (VInt 0); (VInt 0); (VInt 0); (VInt 0); (VInt 0); (VInt 0); (VInt 0); (VInt 0); (VInt 0); (VInt 0); (VInt 0); (VInt 0); (VInt 0); (VInt 0); (VInt 0); (VInt 0); (VInt 0); (VInt 0); (VInt 0); (VInt 0); (VInt 0); (VInt 0); (VInt 0); (VInt 0); (VInt 0); (VInt 0); (VInt 0); (VInt 0); (VInt 0); (VInt 0); (VInt 0); (VInt 0); (VInt 0); (VInt 0); (VInt 0); (VInt 0); (VInt 0); (VInt 0); (VInt 0); (VInt 0); (VInt 0); (VInt 0); (VInt 0); (VInt 0); (VInt 0); (VInt 0); (VInt 0); (VInt 0); (VInt 0); (VInt 0); (VInt 0); (VInt 0); (VInt 0); (VInt 0); (VInt 0); (VInt 0); (VInt 0); (VInt 0); (VInt 0); (VInt 0); (VInt 0); (VInt 0); (VInt 0); (VInt 0); (VInt 0); (VInt 0); (VInt 0); (VInt 0); (VInt 0); (VInt 0); (VInt 0); (VInt 0); (VInt 0); (VInt 0); (VInt 0); (VInt 0); (VInt 0); (VInt 0); (VInt 0); (VInt 0); (VInt 0); (VInt 0); (VInt 0); (VInt 0); (VInt 0); (VInt 0); (VInt 0); (VInt 0); (VInt 0); (VInt 0); (VInt 0); (VInt 0); (VInt 0); (VInt 0)]); (VStr [81;81;81;81;81;81;81;81]); (VStr [81;81;81;81;81;81;81;81]); (VStr [81;81;81;81;81]); (VStr [120;120;120;120;120;120;120;120;120;120;120;120;120;120;120;120;120;120;120;120;120;120;120;120;120;120;120;120;120;120;120;120;120;120;120;120;120;120;120;120;120;120;120;120;120;120;120;120;120;120;120;120;120;120;120;120;120;120;120;120;120;120;120;120;120;120;120;120;120;120;120;120;120;120;120;120;120;120;120;120;120;120;120;120;120;120;120;120;120;120;120;120;120;120;120;120;120;120;120;120;120;120;120;120;120;120;120;120;120;120;120;120;120;120;120;120;120;120;120;120;120;120;120;120;120;120;120;120;120;120]); (VList [(VStr []); (VStr []); (VStr []); (VStr []); (VStr []); (VStr []); (VStr []); (VStr []); (VStr []); (VStr []); (VStr []); (VStr []); (VStr []); (VStr []); (VStr []); (VStr []); (VStr []); (VStr []); (VStr []); (VStr []); (VStr []); (VStr []); (VStr []); (VStr []); (VStr []); (VStr []); (VStr []); (VStr []); (VStr []); (VStr []); (VStr []); (VStr []); (VStr []); (VStr []); (VStr []); (VStr []); (VStr []); (VStr []); (VStr []); (VStr []); (VStr []); (VStr []); (VStr []); (VStr []); (VStr []); (VStr []); (VStr []); (VStr []); (VStr []); (VStr []); (VStr []); (VStr []); (VStr []); (VStr []); (VStr []); (VStr []); (VStr []); (VStr []); (VStr []); (VStr []); (VStr []); (VStr []); (VStr []); (VStr []); (VStr []); (VStr []); (VStr []); (VStr []); (VStr []); (VStr []); (VStr []); (VStr []); (VStr []); (VStr []); (VStr []); (VStr []); (VStr []); (VStr []); (VStr []); (VStr []); (VStr []); (VStr []); (VStr []); (VStr []); (VStr []); (VStr []); (VStr []); (VStr []); (VStr []); (VStr []); (VStr []); (VStr []); (VStr []); (VStr []); (VStr []); (VStr []); (VStr []); (VStr []); (VStr []); (VStr []); (VStr []); (VStr []); (VStr []); (VStr []); (VStr []); (VStr []); (VStr []); (VStr []); (VStr []); (VStr []); (VStr []); (VStr []); (VStr []); (VStr []); (VStr []); (VStr []); (VStr []); (VStr []); (VStr []); (VStr []); (VStr []); (VStr []); (VStr []); (VStr []); (VStr []); (VStr []); (VStr []); (VStr []); (VStr []); (VStr [])]); (VInt 18446744073709551615); (VInt 1); (VInt 4294967295); (VDyn "Logon" (VObj [(VInt 255); (VStr [120;120;120;120;120;120;120;120;120;120;120;120;120;120;120;120;120;120;120;120;120;120;120;120;120;120;120;120;120;120;120;120;120;120;120;120;120;120;120;120;120;120;120;120;120;120;120;120;120;120;120;120;120;120;120;120;120;120;120;120;120;120;120;120;120;120;120;120;120;120;120;120;120;120;120;120;120;120;120;120;120;120;120;120;120;120;120;120;120;120;120;120;120;120;120;120;120;120;120;120;120;120;120;120;120;120;120;120;120;120;120;120;120;120;120;120;120;120;120;120;120;120;120;120;120;120;120;120;120;120]); (VList [(VInt 0); (VInt 0); (VInt 0); (VInt 0); (VInt 0); (VInt 0); (VInt 0); (VInt 0); (VInt 0); (VInt 0); (VInt 0); (VInt 0); (VInt 0); (VInt 0); (VInt 0); (VInt 0); (VInt 0); (VInt 0); (VInt 0); (VInt 0); (VInt 0); (VInt 0); (VInt 0); (VInt 0); (VInt 0); (VInt 0); (VInt 0); (VInt 0); (VInt 0); (VInt 0); (VInt 0); (VInt 0); (VInt 0); (VInt 0); (VInt 0); (VInt 0); (VInt 0); (VInt 0); (VInt 0); (VInt 0); (VInt 0); (VInt 0); (VInt 0); (VInt 0); (VInt 0); (VInt 0); (VInt 0); (VInt 0); (VInt 0); (VInt 0); (VInt 0); (VInt 0); (VInt 0); (VInt 0); (VInt 0); (VInt 0); (VInt 0); (VInt 0); (VInt 0); (VInt 0); (VInt 0); (VInt 0); (VInt 0); (VInt 0); (VInt 0); (VInt 0); (VInt 0); (VInt 0); (VInt 0); (VInt 0); (VInt 0); (VInt 0); (VInt 0); (VInt 0); (VInt 0); (VInt 0); (VInt 0); (VInt 0); (VInt 0); (VInt 0); (VInt 0); (VInt 0); (VInt 0); (VInt 0); (VInt 0); (VInt 0); (VInt 0); (VInt 0); (VInt 0); (VInt 0); (VInt 0); (VInt 0); (VInt 0); (VInt 0); (VInt 0); (VInt 0); (VInt 0); (VInt 0); (VInt 0); (VInt 0); (VInt 0); (VInt 0); (VInt 0); (VInt 0); (VInt 0); (VInt 0); (VInt 0); (VInt 0); (VInt 0); (VInt 0); (VInt 0); (VInt 0); (VInt 0); (VInt 0); (VInt 0); (VInt 0); (VInt 0); (VInt 0); (VInt 0); (VInt 0); (VInt 0); (VInt 0); (VInt 0); (VInt 0); (VInt 0); (VInt 0); (VInt 0); (VInt 0); (VInt 0); (VInt 0)])])); (VInt 4294967295)]).
-Eval vm_compute in ("<<<cells-c2|34>>>" ++ pyx_both M_cells_c2_c3 O_cells_c2_c3 "Msg" M_cells_c2_c3_v34).
-Definition M_cells_c2_c3_v35 : value := (VObj [(VInt 111); (VInt 71); (VInt 36941); (VInt 18316); (VInt 3246154361); (VInt 3874773259); (VInt 6091063652223914538); (VInt 1857609452829537054); (VInt 222); (VInt 161); (VInt 26801); (VInt 62522); (VInt 2239196826); (VInt 3934166345); (VInt 11287508979737617733); (VInt 16004446357875848314); (VInt 3738645480); (VInt 2437440079); (VInt 1682637359498011204); (VInt 2011762206806500866); (VStr [195;169]); (VStr [195;169]); (VStr [195;169]); (VStr [195;169]); (VStr [195;169]); (VStr [195;169]); (VStr [195;169]); (VStr [195;169]); (VStr [195;169]); (VStr [195;169]); (VStr [195;169]); (VStr [104;195;169;108;108;111;32;119;195;182;114;108;100;32;226;130;172]); (VStr [104;195;169;108;108;111;32;119;195;182;114;108;100;32;226;130;172]); (VObj [(VInt 149); (VInt 16359); (VStr [104;195;169;108;108;111;32;119;195;182;114;108;100;32;226;130;172])]); (VObj [(VInt 170); (VStr [104;195;169;108;108;111;32;119;195;182;114;108;100;32;226;130;172]); (VObj [(VInt 26634); (VList [(VInt 2147483648); (VInt 4294967295); (VInt 0)])])]); (VList [(VInt 128); (VInt 255); (VInt 0)]); (VList [(VInt 32768); (VInt 65535); (VInt 0)]); (VList [(VInt 2147483648); (VInt 4294967295); (VInt 0)]); (VList [(VInt 9223372036854775808); (VInt 18446744073709551615); (VInt 0)]); (VList [(VInt 128); (VInt 255); (VInt 0)]); (VList [(VInt 32768); (VInt 65535); (VInt 0)]); (VList [(VInt 2147483648); (VInt 4294967295); (VInt 0)]); (VList [(VInt 9223372036854775808); (VInt 18446744073709551615); (VInt 0)]); (VList [(VInt 2147483648); (VInt 4294967295); (VInt 0)]); (VList [(VInt 9223372036854775808); (VInt 18446744073709551615); (VInt 0)]); (VList [(VStr [104;101;108;108;111]); (VStr [120;120;120;120;120;120;120;120;120;120;120;120;120;120;120;120;120;120;120;120;120;120;120;120;120;120;120;120;120;120;120;120;120;120;120;120;120;120;120;120;120;120;120;120;120;120;120;120;120;120;120;120;120;120;120;120;120;120;120;120;120;120;120;120;120;120;120;120;120;120;120;120;120;120;120;120;120;120;120;120;120;120;120;120;120;120;120;120;120;120;120;120;120;120;120;120;120;120;120;120;120;120;120;120;120;120;120;120;120;120;120;120;120;120;120;120;120;120;120;120;120;120;120;120;120;120;120;120;120;120]); (VStr [])]); (VList [(VStr [104;101;108;108;111]); (VStr [120;120;120;120;120;120;120;120;120;120;120;120;120;120;120;120;120;120;120;120;120;120;120;120;120;120;120;120;120;120;120;120;120;120;120;120;120;120;120;120;120;120;120;120;120;120;120;120;120;120;120;120;120;120;120;120;120;120;120;120;120;120;120;120;120;120;120;120;120;120;120;120;120;120;120;120;120;120;120;120;120;120;120;120;120;120;120;120;120;120;120;120;120;120;120;120;120;120;120;120;120;120;120;120;120;120;120;120;120;120;120;120;120;120;120;120;120;120;120;120;120;120;120;120;120;120;120;120;120;120]); (VStr [])]); (VList [(VStr [65]); (VStr [81;81;81]); (VStr [])]); (VList [(VStr [65]); (VStr [81;81;81]); (VStr [])]); (VList [(VObj [(VInt 128); (VStr [65])]); (VObj [(VInt 255); (VStr [81;81;81])]); (VObj [(VInt 0); (VStr [])])]); (VList [(VObj [(VInt 128); (VStr [65])]); (VObj [(VInt 255); (VStr [81;81])]); (VObj [(VInt 0); (VStr [])])]); (VInt 2523796087); (VInt 1911213317); (VList [(VInt 2147483648); (VInt 4294967295); (VInt 0)]); (VStr [195;169]); (VStr [195;169]); (VStr [195;169]); (VStr [104;195;169;108;108;111;32;119;195;182;114;108;100;32;226;130;172]); (VList [(VStr [65]); (VStr [81;81;81;81;81;81;81;81]); (VStr [])]); (VInt 14719303042820620653); (VInt 1); (VInt 2472402290); (VDyn "Logon" (VObj [(VInt 148); (VStr [104;195;169;108;108;111;32;119;195;182;114;108;100;32;226;130;172]); (VList [(VInt 32768); (VInt 65535); (VInt 0)])])); (VInt 789710164)]).
-Eval vm_compute in ("<<<cells-c2|35>>>" ++ pyx_both M_cells_c2_c3 O_cells_c2_c3 "Msg" M_cells_c2_c3_v35).
-Definition M_cells_c2_c3_v36 : value := (VObj [(VInt 128); (VInt 128); (VInt 32768); (VInt 32768); (VInt 2147483648); (VInt 2147483648); (VInt 9223372036854775808); (VInt 9223372036854775808); (VInt 128); (VInt 128); (VInt 32768); (VInt 32768); (VInt 2147483648); (VInt 2147483648); (VInt 9223372036854775808); (VInt 9223372036854775808); (VInt 2147483648); (VInt 2147483648); (VInt 9223372036854775808); (VInt 9223372036854775808); (VStr [65]); (VStr [65]); (VStr [65]); (VStr [65]); (VStr [65]); (VStr [65]); (VStr [65]); (VStr [65]); (VStr [65]); (VStr [65]); (VStr [65]); (VStr [104;101;108;108;111]); (VStr [104;101;108;108;111]); (VObj [(VInt 128); (VInt 32768); (VStr [104;101;108;108;111])]); (VObj [(VInt 128); (VStr [104;101;108;108;111]); (VObj [(VInt 32768); (VList [(VInt 2147483648)])])]); (VList [(VInt 128)]); (VList [(VInt 32768)]); (VList [(VInt 2147483648)]); (VList [(VInt 9223372036854775808)]); (VList [(VInt 128)]); (VList [(VInt 32768)]); (VList [(VInt 2147483648)]); (VList [(VInt 9223372036854775808)]); (VList [(VInt 2147483648)]); (VList [(VInt 9223372036854775808)]); (VList [(VStr [104;101;108;108;111])]); (VList [(VStr [104;101;108;108;111])]); (VList [(VStr [65])]); (VList [(VStr [65])]); (VList [(VObj [(VInt 128); (VStr [65])])]); (VList [(VObj [(VInt 128); (VStr [65])])]); (VInt 2147483648); (VInt 2147483648); (VList [(VInt 2147483648)]); (VStr [65]); (VStr [65]); (VStr [65]); (VStr [104;101;108;108;111]); (VList [(VStr [65])]); (VInt 9223372036854775808); (VInt 2); (VInt 2147483648); (VDyn "Logout" (VObj [(VInt 32768)])); (VInt 2147483648)]).
-Eval vm_compute in ("<<<cells-c2|36>>>" ++ pyx_both M_cells_c2_c3 O_cells_c2_c3 "Msg" M_cells_c2_c3_v36).
-Definition M_cells_c2_c3_v37 : value := (VObj [(VInt 128); (VInt 128); (VInt 32768); (VInt 32768); (VInt 2147483648); (VInt 2147483648); (VInt 9223372036854775808); (VInt 9223372036854775808); (VInt 128); (VInt 128); (VInt 32768); (VInt 32768); (VInt 2147483648); (VInt 2147483648); (VInt 9223372036854775808); (VInt 9223372036854775808); (VInt 2147483648); (VInt 2147483648); (VInt 9223372036854775808); (VInt 9223372036854775808); (VStr [65]); (VStr [65]); (VStr [65]); (VStr [65]); (VStr [65]); (VStr [65]); (VStr [65]); (VStr [65]); (VStr [65]); (VStr [65]); (VStr [65]); (VStr [104;101;108;108;111]); (VStr [104;101;108;108;111]); (VObj [(VInt 128); (VInt 32768); (VStr [104;101;108;108;111])]); (VObj [(VInt 128); (VStr [104;101;108;108;111]); (VObj [(VInt 32768); (VList [(VInt 2147483648)])])]); (VList [(VInt 128)]); (VList [(VInt 32768)]); (VList [(VInt 2147483648)]); (VList [(VInt 9223372036854775808)]); (VList [(VInt 128)]); (VList [(VInt 32768)]); (VList [(VInt 2147483648)]); (VList [(VInt 9223372036854775808)]); (VList [(VInt 2147483648)]); (VList [(VInt 9223372036854775808)]); (VList [(VStr [104;101;108;108;111])]); (VList [(VStr [104;101;108;108;111])]); (VList [(VStr [65])]); (VList [(VStr [65])]); (VList [(VObj [(VInt 128); (VStr [65])])]); (VList [(VObj [(VInt 128); (VStr [65])])]); (VInt 2147483648); (VInt 2147483648); (VList [(VInt 2147483648)]); (VStr [65]); (VStr [65]); (VStr [65]); (VStr [104;101;108;108;111]); (VList [(VStr [65])]); (VInt 9223372036854775808); (VInt 3); (VInt 2147483648); (VDyn "Logout" (VObj [(VInt 32768)])); (VInt 2147483648)]).
-Eval vm_compute in ("<<<cells-c2|37>>>" ++ pyx_both M_cells_c2_c3 O_cells_c2_c3 "Msg" M_cells_c2_c3_v37).
-Definition M_cells_c2_c3_v38 : value := (VObj [(VInt 128); (VInt 128); (VInt 32768); (VInt 32768); (VInt 2147483648); (VInt 2147483648); (VInt 9223372036854775808); (VInt 9223372036854775808); (VInt 128); (VInt 128); (VInt 32768); (VInt 32768); (VInt 2147483648); (VInt 2147483648); (VInt 9223372036854775808); (VInt 9223372036854775808); (VInt 2147483648); (VInt 2147483648); (VInt 9223372036854775808); (VInt 9223372036854775808); (VStr [65]); (VStr [65]); (VStr [65]); (VStr [65]); (VStr [65]); (VStr [65]); (VStr [65]); (VStr [65]); (VStr [65]); (VStr [65]); (VStr [65]); (VStr [104;101;108;108;111]); (VStr [104;101;108;108;111]); (VObj [(VInt 128); (VInt 32768); (VStr [104;101;108;108;111])]); (VObj [(VInt 128); (VStr [104;101;108;108;111]); (VObj [(VInt 32768); (VList [(VInt 2147483648)])])]); (VList [(VInt 128)]); (VList [(VInt 32768)]); (VList [(VInt 2147483648)]); (VList [(VInt 9223372036854775808)]); (VList [(VInt 128)]); (VList [(VInt 32768)]); (VList [(VInt 2147483648)]); (VList [(VInt 9223372036854775808)]); (VList [(VInt 2147483648)]); (VList [(VInt 9223372036854775808)]); (VList [(VStr [104;101;108;108;111])]); (VList [(VStr [104;101;108;108;111])]); (VList [(VStr [65])]); (VList [(VStr [65])]); (VList [(VObj [(VInt 128); (VStr [65])])]); (VList [(VObj [(VInt 128); (VStr [65])])]); (VInt 2147483648); (VInt 2147483648); (VList [(VInt 2147483648)]); (VStr [65]); (VStr [65]); (VStr [65]); (VStr [104;101;108;108;111]); (VList [(VStr [65])]); (VInt 9223372036854775808); (VInt 7); (VInt 2147483648); (VDyn "Logon" (VObj [(VInt 128); (VStr [104;101;108;108;111]); (VList [(VInt 32768)])])); (VInt 2147483648)]).
-Eval vm_compute in ("<<<cells-c2|38>>>" ++ pyx_both M_cells_c2_c3 O_cells_c2_c3 "Msg" M_cells_c2_c3_v38).
-Definition M_cells_c2_c3_v39 : value := (VObj [(VInt 128); (VInt 128); (VInt 32768); (VInt 32768); (VInt 2147483648); (VInt 2147483648); (VInt 9223372036854775808); (VInt 9223372036854775808); (VInt 128); (VInt 128); (VInt 32768); (VInt 32768); (VInt 2147483648); (VInt 2147483648); (VInt 9223372036854775808); (VInt 9223372036854775808); (VInt 2147483648); (VInt 2147483648); (VInt 9223372036854775808); (VInt 9223372036854775808); (VStr [65]); (VStr [65]); (VStr [65]); (VStr [65]); (VStr [65]); (VStr [65]); (VStr [65]); (VStr [65]); (VStr [65]); (VStr [65]); (VStr [65]); (VStr [104;101;108;108;111]); (VStr [104;101;108;108;111]); (VObj [(VInt 128); (VInt 32768); (VStr [104;101;108;108;111])]); (VObj [(VInt 128); (VStr [104;101;108;108;111]); (VObj [(VInt 32768); (VList [(VInt 2147483648)])])]); (VList [(VInt 128)]); (VList [(VInt 32768)]); (VList [(VInt 2147483648)]); (VList [(VInt 9223372036854775808)]); (VList [(VInt 128)]); (VList [(VInt 32768)]); (VList [(VInt 2147483648)]); (VList [(VInt 9223372036854775808)]); (VList [(VInt 2147483648)]); (VList [(VInt 9223372036854775808)]); (VList [(VStr [104;101;108;108;111])]); (VList [(VStr [104;101;108;108;111])]); (VList [(VStr [65])]); (VList [(VStr [65])]); (VList [(VObj [(VInt 128); (VStr [65])])]); (VList [(VObj [(VInt 128); (VStr [65])])]); (VInt 2147483648); (VInt 2147483648); (VList [(VInt 2147483648)]); (VStr [65]); (VStr [65]); (VStr [65]); (VStr [104;101;108;108;111]); (VList [(VStr [65])]); (VInt 9223372036854775808); (VInt 9); (VInt 2147483648); (VDyn "Empty" (VObj [])); (VInt 2147483648)]).
-Eval vm_compute in ("<<<cells-c2|39>>>" ++ pyx_both M_cells_c2_c3 O_cells_c2_c3 "Msg" M_cells_c2_c3_v39).
-Definition M_cks_28_c0 : bmodel := (mkModel (mkCfg "u16" "u16" "" "" "" false (Some (mkPad "' '" false))) [(mkPacket "Sub" false None [(mkField "a" (ABasic "u8") LNone false); (mkField "SubSum" (ACheck (bs [34;67;82;67;49;54;34]) "i64") LNone false)] []); (mkPacket "Frame" true (Some "BodyLen") [(mkField "MsgType" (ABasic "u16") LNone false); (mkField "BodyLen" (ALen (Some "Body") "u16") LLenOf false); (mkField "Body" (AObj false "Sub" (Some "Sub") None) LTarget false); (mkField "note" ADyn LNone false); (mkField "Checksum" (ACheck (bs [34;67;82;67;49;54;34]) "i64") LNone false); (mkField "tail" (ABasic "u8") LNone false)] [])] ["Frame"; "Sub"] (Some "Frame") [("Body", ("Body", "body", "body")); ("BodyLen", ("BodyLen", "bodyLen", "body_len")); ("Checksum", ("Checksum", "checksum", "checksum")); ("Frame", ("Frame", "frame", "frame")); ("MsgType", ("MsgType", "msgType", "msg_type")); ("Sub", ("Sub", "sub", "sub")); ("SubSum", ("SubSum", "subSum", "sub_sum")); ("a", ("A", "a", "a")); ("byte", ("Byte", "byte", "byte")); ("char", ("Char", "char", "char")); ("double", ("Double", "double", "double")); ("f32", ("F32", "f32", "f_32")); ("f64", ("F64", "f64", "f_64")); ("float", ("Float", "float", "float")); ("float32", ("Float32", "float32", "float_32")); ("float64", ("Float64", "float64", "float_64")); ("i16", ("I16", "i16", "i_16")); ("i32", ("I32", "i32", "i_32")); ("i64", ("I64", "i64", "i_64")); ("i8", ("I8", "i8", "i_8")); ("int", ("Int", "int", "int")); ("int16", ("Int16", "int16", "int_16")); ("int32", ("Int32", "int32", "int_32")); ("int64", ("Int64", "int64", "int_64")); ("int8", ("Int8", "int8", "int_8")); ("long", ("Long", "long", "long")); ("match", ("Match", "match", "match")); ("note", ("Note", "note", "note")); ("object", ("Object", "object", "object")); ("short", ("Short", "short", "short")); ("string", ("String", "string", "string")); ("tail", ("Tail", "tail", "tail")); ("u16", ("U16", "u16", "u_16")); ("u32", ("U32", "u32", "u_32")); ("u64", ("U64", "u64", "u_64")); ("u8", ("U8", "u8", "u_8")); ("uint16", ("Uint16", "uint16", "uint_16")); ("uint32", ("Uint32", "uint32", "uint_32")); ("uint64", ("Uint64", "uint64", "uint_64")); ("uint8", ("Uint8", "uint8", "uint_8"))]).
-Definition O_cks_28_c0 : prog := [("Sub", mkPkt 2%nat [(0%nat, (EInt 1%nat false)); (1%nat, (ECheck (bs [34;67;82;67;49;54;34]) 8%nat false))] [(0%nat, (DInt 1%nat false)); (1%nat, (DInt 8%nat false))]); ("Frame", mkPkt 6%nat [(0%nat, (EInt 2%nat false)); (1%nat, (EMarkZero 1%nat 2%nat false)); (2%nat, (ESpan (EObj "Sub") 2%nat)); (2%nat, (EPatch 1%nat 2%nat 2%nat false 2%nat None)); (3%nat, (EStr 2%nat false false)); (4%nat, (ECheck (bs [34;67;82;67;49;54;34]) 8%nat false)); (5%nat, (EInt 1%nat false))] [(0%nat, (DInt 2%nat false)); (1%nat, (DInt 2%nat false)); (2%nat, (DObj "Sub")); (3%nat, (DStr 2%nat false false)); (4%nat, (DInt 8%nat false)); (5%nat, (DInt 1%nat false))])].
-Eval vm_compute in ("<<<cks-28|rep>>>" ++ show_bool (lenw_ok M_cks_28_c0) ++ "@@" ++ report M_cks_28_c0 O_cks_28_c0).
-Definition M_cks_28_c0_v0 : value := (VObj [(VInt 0); (VInt 0)]).
-Eval vm_compute in ("<<<cks-28|0>>>" ++ pyx_both M_cks_28_c0 O_cks_28_c0 "Sub" M_cks_28_c0_v0).
-Definition M_cks_28_c0_v1 : value := (VObj [(VInt 128); (VInt 9223372036854775808)]).
-Eval vm_compute in ("<<<cks-28|1>>>" ++ pyx_both M_cks_28_c0 O_cks_28_c0 "Sub" M_cks_28_c0_v1).
-Definition M_cks_28_c0_v2 : value := (VObj [(VInt 255); (VInt 18446744073709551615)]).
-Eval vm_compute in ("<<<cks-28|2>>>" ++ pyx_both M_cks_28_c0 O_cks_28_c0 "Sub" M_cks_28_c0_v2).
-Definition M_cks_28_c0_v3 : value := (VObj [(VInt 197); (VInt 16422101724900707500)]).
-Eval vm_compute in ("<<<cks-28|3>>>" ++ pyx_both M_cks_28_c0 O_cks_28_c0 "Sub" M_cks_28_c0_v3).
-Definition M_cks_28_c0_v4 : value := (VObj [(VInt 0); (VInt 0); (VObj [(VInt 0); (VInt 0)]); (VStr []); (VInt 0); (VInt 0)]).
-Eval vm_compute in ("<<<cks-28|4>>>" ++ pyx_both M_cks_28_c0 O_cks_28_c0 "Frame" M_cks_28_c0_v4).
-Definition M_cks_28_c0_v5 : value := (VObj [(VInt 32768); (VInt 32768); (VObj [(VInt 128); (VInt 9223372036854775808)]); (VStr [104;101;108;108;111]); (VInt 9223372036854775808); (VInt 128)]).
-Eval vm_compute in ("<<<cks-28|5>>>" ++ pyx_both M_cks_28_c0 O_cks_28_c0 "Frame" M_cks_28_c0_v5).
-Definition M_cks_28_c0_v6 : value := (VObj [(VInt 65535); (VInt 65535); (VObj [(VInt 255); (VInt 18446744073709551615)]); (VStr [120;120;120;120;120;120;120;120;120;120;120;120;120;120;120;120;120;120;120;120;120;120;120;120;120;120;120;120;120;120;120;120;120;120;120;120;120;120;120;120;120;120;120;120;120;120;120;120;120;120;120;120;120;120;120;120;120;120;120;120;120;120;120;120;120;120;120;120;120;120;120;120;120;120;120;120;120;120;120;120;120;120;120;120;120;120;120;120;120;120;120;120;120;120;120;120;120;120;120;120;120;120;120;120;120;120;120;120;120;120;120;120;120;120;120;120;120;120;120;120;120;120;120;120;120;120;120;120;120;120]); (VInt 18446744073709551615); (VInt 255)]).
-Eval vm_compute in ("<<<cks-28|6>>>" ++ pyx_both M_cks_28_c0 O_cks_28_c0 "Frame" M_cks_28_c0_v6).
-Definition M_cks_28_c0_v7 : value := (VObj [(VInt 5306); (VInt 33936); (VObj [(VInt 248); (VInt 16751726038647824248)]); (VStr [104;195;169;108;108;111;32;119;195;182;114;108;100;32;226;130;172]); (VInt 2569146471088859254); (VInt 71)]).
-Eval vm_compute in ("<<<cks-28|7>>>" ++ pyx_both M_cks_28_c0 O_cks_28_c0 "Frame" M_cks_28_c0_v7).
-Definition M_len_26_c0 : bmodel := (mkModel (mkCfg "u16" "u16" "" "" "" false (Some (mkPad "' '" false))) [(mkPacket "Logon" false None [(mkField "x" (ABasic "u8") LNone false); (mkField "user" ADyn LNone false)] []); (mkPacket "Logout" false None [(mkField "reason" (ABasic "u16") LNone false)] []); (mkPacket "Empty" false None [] []); (mkPacket "Frame" true (Some "BodyLen") [(mkField "MsgType" (ABasic "u16") LNone false); (mkField "BodyLen" (ALen (Some "Body") "u64") LLenOf false); (mkField "flags" (ABasic "u8") LNone false); (mkField "Body" (AObj false "Logon" (Some "Logon") None) LTarget false); (mkField "trailer" (ABasic "u32") LNone false)] [])] ["Empty"; "Frame"; "Logon"; "Logout"] (Some "Frame") [("Body", ("Body", "body", "body")); ("BodyLen", ("BodyLen", "bodyLen", "body_len")); ("Empty", ("Empty", "empty", "empty")); ("Frame", ("Frame", "frame", "frame")); ("Logon", ("Logon", "logon", "logon")); ("Logout", ("Logout", "logout", "logout")); ("MsgType", ("MsgType", "msgType", "msg_type")); ("byte", ("Byte", "byte", "byte")); ("char", ("Char", "char", "char")); ("double", ("Double", "double", "double")); ("f32", ("F32", "f32", "f_32")); ("f64", ("F64", "f64", "f_64")); ("flags", ("Flags", "flags", "flags")); ("float", ("Float", "float", "float")); ("float32", ("Float32", "float32", "float_32")); ("float64", ("Float64", "float64", "float_64")); ("i16", ("I16", "i16", "i_16")); ("i32", ("I32", "i32", "i_32")); ("i64", ("I64", "i64", "i_64")); ("i8", ("I8", "i8", "i_8")); ("int", ("Int", "int", "int")); ("int16", ("Int16", "int16", "int_16")); ("int32", ("Int32", "int32", "int_32")); ("int64", ("Int64", "int64", "int_64")); ("int8", ("Int8", "int8", "int_8")); ("long", ("Long", "long", "long")); ("match", ("Match", "match", "match")); ("object", ("Object", "object", "object")); ("reason", ("Reason", "reason", "reason")); ("short", ("Short", "short", "short")); ("string", ("String", "string", "string")); ("trailer", ("Trailer", "trailer", "trailer")); ("u16", ("U16", "u16", "u_16")); ("u32", ("U32", "u32", "u_32")); ("u64", ("U64", "u64", "u_64")); ("u8", ("U8", "u8", "u_8")); ("uint16", ("Uint16", "uint16", "uint_16")); ("uint32", ("Uint32", "uint32", "uint_32")); ("uint64", ("Uint64", "uint64", "uint_64")); ("uint8", ("Uint8", "uint8", "uint_8")); ("user", ("User", "user", "user")); ("x", ("X", "x", "x"))]).
-Definition O_len_26_c0 : prog := [("Logon", mkPkt 2%nat [(0%nat, (EInt 1%nat false)); (1%nat, (EStr 2%nat false false))] [(0%nat, (DInt 1%nat false)); (1%nat, (DStr 2%nat false false))]); ("Logout", mkPkt 1%nat [(0%nat, (EInt 2%nat false))] [(0%nat, (DInt 2%nat false))]); ("Empty", mkPkt 0%nat [] []); ("Frame", mkPkt 5%nat [(0%nat, (EInt 2%nat false)); (1%nat, (EMarkZero 1%nat 8%nat false)); (2%nat, (EInt 1%nat false)); (3%nat, (ESpan (EObj "Logon") 3%nat)); (3%nat, (EPatch 1%nat 3%nat 8%nat false 8%nat None)); (4%nat, (EInt 4%nat false))] [(0%nat, (DInt 2%nat false)); (1%nat, (DInt 8%nat false)); (2%nat, (DInt 1%nat false)); (3%nat, (DObj "Logon")); (4%nat, (DInt 4%nat false))])].
-Eval vm_compute in ("<<<len-26|rep>>>" ++ show_bool (lenw_ok M_len_26_c0) ++ "@@" ++ report M_len_26_c0 O_len_26_c0).
-Definition M_len_26_c0_v0 : value := (VObj [(VInt 0); (VStr [])]).
-Eval vm_compute in ("<<<len-26|0>>>" ++ pyx_both M_len_26_c0 O_len_26_c0 "Logon" M_len_26_c0_v0).
-Definition M_len_26_c0_v1 : value := (VObj [(VInt 128); (VStr [104;101;108;108;111])]).
-Eval vm_compute in ("<<<len-26|1>>>" ++ pyx_both M_len_26_c0 O_len_26_c0 "Logon" M_len_26_c0_v1).
-Definition M_len_26_c0_v2 : value := (VObj [(VInt 255); (VStr [120;120;120;120;120;120;120;120;120;120;120;120;120;120;120;120;120;120;120;120;120;120;120;120;120;120;120;120;120;120;120;120;120;120;120;120;120;120;120;120;120;120;120;120;120;120;120;120;120;120;120;120;120;120;120;120;120;120;120;120;120;120;120;120;120;120;120;120;120;120;120;120;120;120;120;120;120;120;120;120;120;120;120;120;120;120;120;120;120;120;120;120;120;120;120;120;120;120;120;120;120;120;120;120;120;120;120;120;120;120;120;120;120;120;120;120;120;120;120;120;120;120;120;120;120;120;120;120;120;120])]).
-Eval vm_compute in ("<<<len-26|2>>>" ++ pyx_both M_len_26_c0 O_len_26_c0 "Logon" M_len_26_c0_v2).
-Definition M_len_26_c0_v3 : value := (VObj [(VInt 197); (VStr [104;195;169;108;108;111;32;119;195;182;114;108;100;32;226;130;172])]).
-Eval vm_compute in ("<<<len-26|3>>>" ++ pyx_both M_len_26_c0 O_len_26_c0 "Logon" M_len_26_c0_v3).
-Definition M_len_26_c0_v4 : value := (VObj [(VInt 0)]).
-Eval vm_compute in ("<<<len-26|4>>>" ++ pyx_both M_len_26_c0 O_len_26_c0 "Logout" M_len_26_c0_v4).
-Definition M_len_26_c0_v5 : value := (VObj [(VInt 32768)]).
-Eval vm_compute in ("<<<len-26|5>>>" ++ pyx_both M_len_26_c0 O_len_26_c0 "Logout" M_len_26_c0_v5).
-Definition M_len_26_c0_v6 : value := (VObj [(VInt 65535)]).
-Eval vm_compute in ("<<<len-26|6>>>" ++ pyx_both M_len_26_c0 O_len_26_c0 "Logout" M_len_26_c0_v6).
-Definition M_len_26_c0_v7 : value := (VObj [(VInt 55125)]).
-Eval vm_compute in ("<<<len-26|7>>>" ++ pyx_both M_len_26_c0 O_len_26_c0 "Logout" M_len_26_c0_v7).
-Definition M_len_26_c0_v8 : value := (VObj []).
-Eval vm_compute in ("<<<len-26|8>>>" ++ pyx_both M_len_26_c0 O_len_26_c0 "Empty" M_len_26_c0_v8).
-Definition M_len_26_c0_v9 : value := (VObj []).
-Eval vm_compute in ("<<<len-26|9>>>" ++ pyx_both M_len_26_c0 O_len_26_c0 "Empty" M_len_26_c0_v9).
-Definition M_cks_25_c0 : bmodel := (mkModel (mkCfg "u16" "u16" "" "" "" true (Some (mkPad "' '" false))) [(mkPacket "Sub" false None [(mkField "a" (ABasic "u8") LNone false); (mkField "SubSum" (ACheck (bs [34;67;82;67;49;54;34]) "i32") LNone false)] []); (mkPacket "Frame" true (Some "BodyLen") [(mkField "MsgType" (ABasic "u16") LNone false); (mkField "BodyLen" (ALen (Some "Body") "u16") LLenOf false); (mkField "Body" (AObj false "Sub" (Some "Sub") None) LTarget false); (mkField "note" ADyn LNone false); (mkField "Checksum" (ACheck (bs [34;67;82;67;49;54;34]) "i32") LNone false); (mkField "tail" (ABasic "u8") LNone false)] [])] ["Frame"; "Sub"] (Some "Frame") [("Body", ("Body", "body", "body")); ("BodyLen", ("BodyLen", "bodyLen", "body_len")); ("Checksum", ("Checksum", "checksum", "checksum")); ("Frame", ("Frame", "frame", "frame")); ("MsgType", ("MsgType", "msgType", "msg_type")); ("Sub", ("Sub", "sub", "sub")); ("SubSum", ("SubSum", "subSum", "sub_sum")); ("a", ("A", "a", "a")); ("byte", ("Byte", "byte", "byte")); ("char", ("Char", "char", "char")); ("double", ("Double", "double", "double")); ("f32", ("F32", "f32", "f_32")); ("f64", ("F64", "f64", "f_64")); ("float", ("Float", "float", "float")); ("float32", ("Float32", "float32", "float_32")); ("float64", ("Float64", "float64", "float_64")); ("i16", ("I16", "i16", "i_16")); ("i32", ("I32", "i32", "i_32")); ("i64", ("I64", "i64", "i_64")); ("i8", ("I8", "i8", "i_8")); ("int", ("Int", "int", "int")); ("int16", ("Int16", "int16", "int_16")); ("int32", ("Int32", "int32", "int_32")); ("int64", ("Int64", "int64", "int_64")); ("int8", ("Int8", "int8", "int_8")); ("long", ("Long", "long", "long")); ("match", ("Match", "match", "match")); ("note", ("Note", "note", "note")); ("object", ("Object", "object", "object")); ("short", ("Short", "short", "short")); ("string", ("String", "string", "string")); ("tail", ("Tail", "tail", "tail")); ("u16", ("U16", "u16", "u_16")); ("u32", ("U32", "u32", "u_32")); ("u64", ("U64", "u64", "u_64")); ("u8", ("U8", "u8", "u_8")); ("uint16", ("Uint16", "uint16", "uint_16")); ("uint32", ("Uint32", "uint32", "uint_32")); ("uint64", ("Uint64", "uint64", "uint_64")); ("uint8", ("Uint8", "uint8", "uint_8"))]).
-Definition O_cks_25_c0 : prog := [("Sub", mkPkt 2%nat [(0%nat, (EInt 1%nat false)); (1%nat, (ECheck (bs [34;67;82;67;49;54;34]) 4%nat true))] [(0%nat, (DInt 1%nat false)); (1%nat, (DInt 4%nat true))]); ("Frame", mkPkt 6%nat [(0%nat, (EInt 2%nat true)); (1%nat, (EMarkZero 1%nat 2%nat true)); (2%nat, (ESpan (EObj "Sub") 2%nat)); (2%nat, (EPatch 1%nat 2%nat 2%nat true 2%nat None)); (3%nat, (EStr 2%nat true true)); (4%nat, (ECheck (bs [34;67;82;67;49;54;34]) 4%nat true)); (5%nat, (EInt 1%nat false))] [(0%nat, (DInt 2%nat true)); (1%nat, (DInt 2%nat true)); (2%nat, (DObj "Sub")); (3%nat, (DStr 2%nat true false)); (4%nat, (DInt 4%nat true)); (5%nat, (DInt 1%nat false))])].
-Eval vm_compute in ("<<<cks-25|rep>>>" ++ show_bool (lenw_ok M_cks_25_c0) ++ "@@" ++ report M_cks_25_c0 O_cks_25_c0).
-Definition M_cks_25_c0_v0 : value := (VObj [(VInt 0); (VInt 0)]).
-Eval vm_compute in ("<<<cks-25|0>>>" ++ pyx_both M_cks_25_c0 O_cks_25_c0 "Sub" M_cks_25_c0_v0).
-Definition M_cks_25_c0_v1 : value := (VObj [(VInt 128); (VInt 2147483648)]).
-Eval vm_compute in ("<<<cks-25|1>>>" ++ pyx_both M_cks_25_c0 O_cks_25_c0 "Sub" M_cks_25_c0_v1).
-Definition M_cks_25_c0_v2 : value := (VObj [(VInt 255); (VInt 4294967295)]).
-Eval vm_compute in ("<<<cks-25|2>>>" ++ pyx_both M_cks_25_c0 O_cks_25_c0 "Sub" M_cks_25_c0_v2).
-Definition M_cks_25_c0_v3 : value := (VObj [(VInt 197); (VInt 1806341205)]).
-Eval vm_compute in ("<<<cks-25|3>>>" ++ pyx_both M_cks_25_c0 O_cks_25_c0 "Sub" M_cks_25_c0_v3).
-Definition M_cks_25_c0_v4 : value := (VObj [(VInt 0); (VInt 0); (VObj [(VInt 0); (VInt 0)]); (VStr []); (VInt 0); (VInt 0)]).
-Eval vm_compute in ("<<<cks-25|4>>>" ++ pyx_both M_cks_25_c0 O_cks_25_c0 "Frame" M_cks_25_c0_v4).
-Definition M_cks_25_c0_v5 : value := (VObj [(VInt 32768); (VInt 32768); (VObj [(VInt 128); (VInt 2147483648)]); (VStr [104;101;108;108;111]); (VInt 2147483648); (VInt 128)]).
-Eval vm_compute in ("<<<cks-25|5>>>" ++ pyx_both M_cks_25_c0 O_cks_25_c0 "Frame" M_cks_25_c0_v5).
-Definition M_cks_25_c0_v6 : value := (VObj [(VInt 65535); (VInt 65535); (VObj [(VInt 255); (VInt 4294967295)]); (VStr [120;120;120;120;120;120;120;120;120;120;120;120;120;120;120;120;120;120;120;120;120;120;120;120;120;120;120;120;120;120;120;120;120;120;120;120;120;120;120;120;120;120;120;120;120;120;120;120;120;120;120;120;120;120;120;120;120;120;120;120;120;120;120;120;120;120;120;120;120;120;120;120;120;120;120;120;120;120;120;120;120;120;120;120;120;120;120;120;120;120;120;120;120;120;120;120;120;120;120;120;120;120;120;120;120;120;120;120;120;120;120;120;120;120;120;120;120;120;120;120;120;120;120;120;120;120;120;120;120;120]); (VInt 4294967295); (VInt 255)]).
-Eval vm_compute in ("<<<cks-25|6>>>" ++ pyx_both M_cks_25_c0 O_cks_25_c0 "Frame" M_cks_25_c0_v6).
-Definition M_cks_25_c0_v7 : value := (VObj [(VInt 33936); (VInt 63691); (VObj [(VInt 207); (VInt 3564191072)]); (VStr [104;195;169;108;108;111;32;119;195;182;114;108;100;32;226;130;172]); (VInt 4156669319); (VInt 183)]).
-Eval vm_compute in ("<<<cks-25|7>>>" ++ pyx_both M_cks_25_c0 O_cks_25_c0 "Frame" M_cks_25_c0_v7).
-Definition M_cks_4_c0 : bmodel := (mkModel (mkCfg "u16" "u16" "" "" "" false (Some (mkPad "' '" false))) [(mkPacket "Sub" false None [(mkField "a" (ABasic "u8") LNone false); (mkField "SubSum" (ACheck (bs [34;67;82;67;49;54;34]) "u16") LNone false)] []); (mkPacket "Frame" true (Some "BodyLen") [(mkField "MsgType" (ABasic "u16") LNone false); (mkField "BodyLen" (ALen (Some "Body") "u16") LLenOf false); (mkField "Body" (AObj false "Sub" (Some "Sub") None) LTarget false); (mkField "note" ADyn LNone false); (mkField "Checksum" (ACheck (bs [34;67;82;67;49;54;34]) "u16") LNone false); (mkField "tail" (ABasic "u8") LNone false)] [])] ["Frame"; "Sub"] (Some "Frame") [("Body", ("Body", "body", "body")); ("BodyLen", ("BodyLen", "bodyLen", "body_len")); ("Checksum", ("Checksum", "checksum", "checksum")); ("Frame", ("Frame", "frame", "frame")); ("MsgType", ("MsgType", "msgType", "msg_type")); ("Sub", ("Sub", "sub", "sub")); ("SubSum", ("SubSum", "subSum", "sub_sum")); ("a", ("A", "a", "a")); ("byte", ("Byte", "byte", "byte")); ("char", ("Char", "char", "char")); ("double", ("Double", "double", "double")); ("f32", ("F32", "f32", "f_32")); ("f64", ("F64", "f64", "f_64")); ("float", ("Float", "float", "float")); ("float32", ("Float32", "float32", "float_32")); ("float64", ("Float64", "float64", "float_64")); ("i16", ("I16", "i16", "i_16")); ("i32", ("I32", "i32", "i_32")); ("i64", ("I64", "i64", "i_64")); ("i8", ("I8", "i8", "i_8")); ("int", ("Int", "int", "int")); ("int16", ("Int16", "int16", "int_16")); ("int32", ("Int32", "int32", "int_32")); ("int64", ("Int64", "int64", "int_64")); ("int8", ("Int8", "int8", "int_8")); ("long", ("Long", "long", "long")); ("match", ("Match", "match", "match")); ("note", ("Note", "note", "note")); ("object", ("Object", "object", "object")); ("short", ("Short", "short", "short")); ("string", ("String", "string", "string")); ("tail", ("Tail", "tail", "tail")); ("u16", ("U16", "u16", "u_16")); ("u32", ("U32", "u32", "u_32")); ("u64", ("U64", "u64", "u_64")); ("u8", ("U8", "u8", "u_8")); ("uint16", ("Uint16", "uint16", "uint_16")); ("uint32", ("Uint32", "uint32", "uint_32")); ("uint64", ("Uint64", "uint64", "uint_64")); ("uint8", ("Uint8", "uint8", "uint_8"))]).
-Definition O_cks_4_c0 : prog := [("Sub", mkPkt 2%nat [(0%nat, (EInt 1%nat false)); (1%nat, (ECheck (bs [34;67;82;67;49;54;34]) 2%nat false))] [(0%nat, (DInt 1%nat false)); (1%nat, (DInt 2%nat false))]); ("Frame", mkPkt 6%nat [(0%nat, (EInt 2%nat false)); (1%nat, (EMarkZero 1%nat 2%nat false)); (2%nat, (ESpan (EObj "Sub") 2%nat)); (2%nat, (EPatch 1%nat 2%nat 2%nat false 2%nat None)); (3%nat, (EStr 2%nat false false)); (4%nat, (ECheck (bs [34;67;82;67;49;54;34]) 2%nat false)); (5%nat, (EInt 1%nat false))] [(0%nat, (DInt 2%nat false)); (1%nat, (DInt 2%nat false)); (2%nat, (DObj "Sub")); (3%nat, (DStr 2%nat false false)); (4%nat, (DInt 2%nat false)); (5%nat, (DInt 1%nat false))])].
-Eval vm_compute in ("<<<cks-4|rep>>>" ++ show_bool (lenw_ok M_cks_4_c0) ++ "@@" ++ report M_cks_4_c0 O_cks_4_c0).
-Definition M_cks_4_c0_v0 : value := (VObj [(VInt 0); (VInt 0)]).
-Eval vm_compute in ("<<<cks-4|0>>>" ++ pyx_both M_cks_4_c0 O_cks_4_c0 "Sub" M_cks_4_c0_v0).
-Definition M_cks_4_c0_v1 : value := (VObj [(VInt 128); (VInt 32768)]).
-Eval vm_compute in ("<<<cks-4|1>>>" ++ pyx_both M_cks_4_c0 O_cks_4_c0 "Sub" M_cks_4_c0_v1).
-Definition M_cks_4_c0_v2 : value := (VObj [(VInt 255); (VInt 65535)]).
-Eval vm_compute in ("<<<cks-4|2>>>" ++ pyx_both M_cks_4_c0 O_cks_4_c0 "Sub" M_cks_4_c0_v2).
-Definition M_cks_4_c0_v3 : value := (VObj [(VInt 197); (VInt 55125)]).
-Eval vm_compute in ("<<<cks-4|3>>>" ++ pyx_both M_cks_4_c0 O_cks_4_c0 "Sub" M_cks_4_c0_v3).
-Definition M_cks_4_c0_v4 : value := (VObj [(VInt 0); (VInt 0); (VObj [(VInt 0); (VInt 0)]); (VStr []); (VInt 0); (VInt 0)]).
-Eval vm_compute in ("<<<cks-4|4>>>" ++ pyx_both M_cks_4_c0 O_cks_4_c0 "Frame" M_cks_4_c0_v4).
-Definition M_cks_4_c0_v5 : value := (VObj [(VInt 32768); (VInt 32768); (VObj [(VInt 128); (VInt 32768)]); (VStr [104;101;108;108;111]); (VInt 32768); (VInt 128)]).
-Eval vm_compute in ("<<<cks-4|5>>>" ++ pyx_both M_cks_4_c0 O_cks_4_c0 "Frame" M_cks_4_c0_v5).
-Definition M_cks_4_c0_v6 : value := (VObj [(VInt 65535); (VInt 65535); (VObj [(VInt 255); (VInt 65535)]); (VStr [120;120;120;120;120;120;120;120;120;120;120;120;120;120;120;120;120;120;120;120;120;120;120;120;120;120;120;120;120;120;120;120;120;120;120;120;120;120;120;120;120;120;120;120;120;120;120;120;120;120;120;120;120;120;120;120;120;120;120;120;120;120;120;120;120;120;120;120;120;120;120;120;120;120;120;120;120;120;120;120;120;120;120;120;120;120;120;120;120;120;120;120;120;120;120;120;120;120;120;120;120;120;120;120;120;120;120;120;120;120;120;120;120;120;120;120;120;120;120;120;120;120;120;120;120;120;120;120;120;120]); (VInt 65535); (VInt 255)]).
-Eval vm_compute in ("<<<cks-4|6>>>" ++ pyx_both M_cks_4_c0 O_cks_4_c0 "Frame" M_cks_4_c0_v6).
-Definition M_cks_4_c0_v7 : value := (VObj [(VInt 5306); (VInt 33936); (VObj [(VInt 248); (VInt 53075)]); (VStr [104;195;169;108;108;111;32;119;195;182;114;108;100;32;226;130;172]); (VInt 39755); (VInt 244)]).
-Eval vm_compute in ("<<<cks-4|7>>>" ++ pyx_both M_cks_4_c0 O_cks_4_c0 "Frame" M_cks_4_c0_v7).
-Definition M_lenlong_9_c1 : bmodel := (mkModel (mkCfg "u16" "u16" "" "" "" true (Some (mkPad "' '" false))) [(mkPacket "Logon" false None [(mkField "x" (ABasic "u8") LNone false); (mkField "user" ADyn LNone false)] []); (mkPacket "Logout" false None [(mkField "reason" (ABasic "u16") LNone false)] []); (mkPacket "Empty" false None [] []); (mkPacket "Frame" true (Some "BodyLen") [(mkField "MsgType" (ABasic "u16") LNone false); (mkField "BodyLen" (ALen (Some "Body") "u32") LLenOf false); (mkField "flags" (ABasic "u8") LNone false); (mkField "Body" (AObj false "Logon" (Some "Logon") None) LTarget false); (mkField "trailer" (ABasic "u32") LNone false)] [])] ["Empty"; "Frame"; "Logon"; "Logout"] (Some "Frame") [("Body", ("Body", "body", "body")); ("BodyLen", ("BodyLen", "bodyLen", "body_len")); ("Empty", ("Empty", "empty", "empty")); ("Frame", ("Frame", "frame", "frame")); ("Logon", ("Logon", "logon", "logon")); ("Logout", ("Logout", "logout", "logout")); ("MsgType", ("MsgType", "msgType", "msg_type")); ("byte", ("Byte", "byte", "byte")); ("char", ("Char", "char", "char")); ("double", ("Double", "double", "double")); ("f32", ("F32", "f32", "f_32")); ("f64", ("F64", "f64", "f_64")); ("flags", ("Flags", "flags", "flags")); ("float", ("Float", "float", "float")); ("float32", ("Float32", "float32", "float_32")); ("float64", ("Float64", "float64", "float_64")); ("i16", ("I16", "i16", "i_16")); ("i32", ("I32", "i32", "i_32")); ("i64", ("I64", "i64", "i_64")); ("i8", ("I8", "i8", "i_8")); ("int", ("Int", "int", "int")); ("int16", ("Int16", "int16", "int_16")); ("int32", ("Int32", "int32", "int_32")); ("int64", ("Int64", "int64", "int_64")); ("int8", ("Int8", "int8", "int_8")); ("long", ("Long", "long", "long")); ("match", ("Match", "match", "match")); ("object", ("Object", "object", "object")); ("reason", ("Reason", "reason", "reason")); ("short", ("Short", "short", "short")); ("string", ("String", "string", "string")); ("trailer", ("Trailer", "trailer", "trailer")); ("u16", ("U16", "u16", "u_16")); ("u32", ("U32", "u32", "u_32")); ("u64", ("U64", "u64", "u_64")); ("u8", ("U8", "u8", "u_8")); ("uint16", ("Uint16", "uint16", "uint_16")); ("uint32", ("Uint32", "uint32", "uint_32")); ("uint64", ("Uint64", "uint64", "uint_64")); ("uint8", ("Uint8", "uint8", "uint_8")); ("user", ("User", "user", "user")); ("x", ("X", "x", "x"))]).
-Definition O_lenlong_9_c1 : prog := [("Logon", mkPkt 2%nat [(0%nat, (EInt 1%nat false)); (1%nat, (EStr 2%nat true true))] [(0%nat, (DInt 1%nat false)); (1%nat, (DStr 2%nat true false))]); ("Logout", mkPkt 1%nat [(0%nat, (EInt 2%nat true))] [(0%nat, (DInt 2%nat true))]); ("Empty", mkPkt 0%nat [] []); ("Frame", mkPkt 5%nat [(0%nat, (EInt 2%nat true)); (1%nat, (EMarkZero 1%nat 4%nat true)); (2%nat, (EInt 1%nat false)); (3%nat, (ESpan (EObj "Logon") 3%nat)); (3%nat, (EPatch 1%nat 3%nat 4%nat true 4%nat None)); (4%nat, (EInt 4%nat true))] [(0%nat, (DInt 2%nat true)); (1%nat, (DInt 4%nat true)); (2%nat, (DInt 1%nat false)); (3%nat, (DObj "Logon")); (4%nat, (DInt 4%nat true))])].
-Definition M_lenlong_9_c1_v10 : value := (VObj []).
-Eval vm_compute in ("<<<lenlong-9|10>>>" ++ pyx_both M_lenlong_9_c1 O_lenlong_9_c1 "Empty" M_lenlong_9_c1_v10).
-Definition M_lenlong_9_c1_v11 : value := (VObj []).
-Eval vm_compute in ("<<<lenlong-9|11>>>" ++ pyx_both M_lenlong_9_c1 O_lenlong_9_c1 "Empty" M_lenlong_9_c1_v11).
-Definition M_lenlong_9_c1_v12 : value := (VObj [(VInt 0); (VInt 0); (VInt 0); (VObj [(VInt 0); (VStr [])]); (VInt 0)]).
-Eval vm_compute in ("<<<lenlong-9|12>>>" ++ pyx_both M_lenlong_9_c1 O_lenlong_9_c1 "Frame" M_lenlong_9_c1_v12).
-Definition M_lenlong_9_c1_v13 : value := (VObj [(VInt 32768); (VInt 2147483648); (VInt 128); (VObj [(VInt 128); (VStr [104;101;108;108;111])]); (VInt 2147483648)]).
-Eval vm_compute in ("<<<lenlong-9|13>>>" ++ pyx_both M_lenlong_9_c1 O_lenlong_9_c1 "Frame" M_lenlong_9_c1_v13).
-Definition M_lenlong_9_c1_v14 : value := (VObj [(VInt 65535); (VInt 4294967295); (VInt 255); (VObj [(VInt 255); (VStr [120;120;120;120;120;120;120;120;120;120;120;120;120;120;120;120;120;120;120;120;120;120;120;120;120;120;120;120;120;120;120;120;120;120;120;120;120;120;120;120;120;120;120;120;120;120;120;120;120;120;120;120;120;120;120;120;120;120;120;120;120;120;120;120;120;120;120;120;120;120;120;120;120;120;120;120;120;120;120;120;120;120;120;120;120;120;120;120;120;120;120;120;120;120;120;120;120;120;120;120;120;120;120;120;120;120;120;120;120;120;120;120;120;120;120;120;120;120;120;120;120;120;120;120;120;120;120;120;120;120])]); (VInt 4294967295)]).
-Eval vm_compute in ("<<<lenlong-9|14>>>" ++ pyx_both M_lenlong_9_c1 O_lenlong_9_c1 "Frame" M_lenlong_9_c1_v14).
-Definition M_lenlong_9_c1_v15 : value := (VObj [(VInt 5306); (VInt 2195908194); (VInt 207); (VObj [(VInt 155); (VStr [104;195;169;108;108;111;32;119;195;182;114;108;100;32;226;130;172])]); (VInt 4156669319)]).
-Eval vm_compute in ("<<<lenlong-9|15>>>" ++ pyx_both M_lenlong_9_c1 O_lenlong_9_c1 "Frame" M_lenlong_9_c1_v15).
-Definition M_key_13_c0 : bmodel := (mkModel (mkCfg "u16" "u16" "" "" "" true (Some (mkPad "' '" false))) [(mkPacket "Logon" false None [(mkField "x" (ABasic "u8") LNone false)] []); (mkPacket "Logout" false None [(mkField "reason" (ABasic "u16") LNone false)] []); (mkPacket "Frame" true None [(mkField "Kind" (ABasic "i32") LNone false); (mkField "Kind2" (ABasic "i32") LNone false); (mkField "Body" (AMatch (Some "Kind") (Some (ABasic "i32")) [(mkPair "1" "Logon"); (mkPair "2" "Logout"); (mkPair "3" "Logout"); (mkPair "4" "Logout"); (mkPair "100" "Logon")]) LNone false); (mkField "Trailer" (AMatch (Some "Kind2") (Some (ABasic "i32")) [(mkPair "0" "Logout")]) LNone false)] [("Kind", [(mkPair "1" "Logon"); (mkPair "2" "Logout"); (mkPair "3" "Logout"); (mkPair "4" "Logout"); (mkPair "100" "Logon")]); ("Kind2", [(mkPair "0" "Logout")])])] ["Frame"; "Logon"; "Logout"] (Some "Frame") [("Body", ("Body", "body", "body")); ("Frame", ("Frame", "frame", "frame")); ("Kind", ("Kind", "kind", "kind")); ("Kind2", ("Kind2", "kind2", "kind_2")); ("Logon", ("Logon", "logon", "logon")); ("Logout", ("Logout", "logout", "logout")); ("Trailer", ("Trailer", "trailer", "trailer")); ("byte", ("Byte", "byte", "byte")); ("char", ("Char", "char", "char")); ("double", ("Double", "double", "double")); ("f32", ("F32", "f32", "f_32")); ("f64", ("F64", "f64", "f_64")); ("float", ("Float", "float", "float")); ("float32", ("Float32", "float32", "float_32")); ("float64", ("Float64", "float64", "float_64")); ("i16", ("I16", "i16", "i_16")); ("i32", ("I32", "i32", "i_32")); ("i64", ("I64", "i64", "i_64")); ("i8", ("I8", "i8", "i_8")); ("int", ("Int", "int", "int")); ("int16", ("Int16", "int16", "int_16")); ("int32", ("Int32", "int32", "int_32")); ("int64", ("Int64", "int64", "int_64")); ("int8", ("Int8", "int8", "int_8")); ("long", ("Long", "long", "long")); ("match", ("Match", "match", "match")); ("object", ("Object", "object", "object")); ("reason", ("Reason", "reason", "reason")); ("short", ("Short", "short", "short")); ("string", ("String", "string", "string")); ("u16", ("U16", "u16", "u_16")); ("u32", ("U32", "u32", "u_32")); ("u64", ("U64", "u64", "u_64")); ("u8", ("U8", "u8", "u_8")); ("uint16", ("Uint16", "uint16", "uint_16")); ("uint32", ("Uint32", "uint32", "uint_32")); ("uint64", ("Uint64", "uint64", "uint_64")); ("uint8", ("Uint8", "uint8", "uint_8")); ("x", ("X", "x", "x"))]).
-Definition O_key_13_c0 : prog := [("Logon", mkPkt 1%nat [(0%nat, (EInt 1%nat false))] [(0%nat, (DInt 1%nat false))]); ("Logout", mkPkt 1%nat [(0%nat, (EInt 2%nat true))] [(0%nat, (DInt 2%nat true))]); ("Frame", mkPkt 4%nat [(0%nat, (EInt 4%nat true)); (1%nat, (EInt 4%nat true)); (2%nat, EDyn); (3%nat, EDyn)] [(0%nat, (DInt 4%nat true)); (1%nat, (DInt 4%nat true)); (2%nat, (DDispatch [("1", "Logon"); ("2", "Logout"); ("3", "Logout"); ("4", "Logout"); ("100", "Logon"); ("0", "Logout")] false 0%nat true)); (3%nat, (DDispatch [("1", "Logon"); ("2", "Logout"); ("3", "Logout"); ("4", "Logout"); ("100", "Logon"); ("0", "Logout")] false 1%nat true))])].
-Eval vm_compute in ("<<<key-13|rep>>>" ++ show_bool (lenw_ok M_key_13_c0) ++ "@@" ++ report M_key_13_c0 O_key_13_c0).
-Definition M_key_13_c0_v0 : value := (VObj [(VInt 0)]).
-Eval vm_compute in ("<<<key-13|0>>>" ++ pyx_both M_key_13_c0 O_key_13_c0 "Logon" M_key_13_c0_v0).
-Definition M_key_13_c0_v1 : value := (VObj [(VInt 128)]).
-Eval vm_compute in ("<<<key-13|1>>>" ++ pyx_both M_key_13_c0 O_key_13_c0 "Logon" M_key_13_c0_v1).
-Definition M_key_13_c0_v2 : value := (VObj [(VInt 255)]).
-Eval vm_compute in ("<<<key-13|2>>>" ++ pyx_both M_key_13_c0 O_key_13_c0 "Logon" M_key_13_c0_v2).
-Definition M_key_13_c0_v3 : value := (VObj [(VInt 197)]).
-Eval vm_compute in ("<<<key-13|3>>>" ++ pyx_both M_key_13_c0 O_key_13_c0 "Logon" M_key_13_c0_v3).
-Definition M_key_13_c0_v4 : value := (VObj [(VInt 0)]).
-Eval vm_compute in ("<<<key-13|4>>>" ++ pyx_both M_key_13_c0 O_key_13_c0 "Logout" M_key_13_c0_v4).
-Definition M_key_13_c0_v5 : value := (VObj [(VInt 32768)]).
-Eval vm_compute in ("<<<key-13|5>>>" ++ pyx_both M_key_13_c0 O_key_13_c0 "Logout" M_key_13_c0_v5).
-Definition M_key_13_c0_v6 : value := (VObj [(VInt 65535)]).
-Eval vm_compute in ("<<<key-13|6>>>" ++ pyx_both M_key_13_c0 O_key_13_c0 "Logout" M_key_13_c0_v6).
-Definition M_key_13_c0_v7 : value := (VObj [(VInt 55125)]).
-Eval vm_compute in ("<<<key-13|7>>>" ++ pyx_both M_key_13_c0 O_key_13_c0 "Logout" M_key_13_c0_v7).
-Definition M_key_13_c0_v8 : value := (VObj [(VInt 1); (VInt 0); (VDyn "Logon" (VObj [(VInt 0)])); (VDyn "Logout" (VObj [(VInt 0)]))]).
-Eval vm_compute in ("<<<key-13|8>>>" ++ pyx_both M_key_13_c0 O_key_13_c0 "Frame" M_key_13_c0_v8).
-Definition M_key_13_c0_v9 : value := (VObj [(VInt 1); (VInt 0); (VDyn "Logon" (VObj [(VInt 128)])); (VDyn "Logout" (VObj [(VInt 32768)]))]).
-Eval vm_compute in ("<<<key-13|9>>>" ++ pyx_both M_key_13_c0 O_key_13_c0 "Frame" M_key_13_c0_v9).
-Definition M_len_3_c1 : bmodel := (mkModel (mkCfg "u16" "u16" "" "" "" true (Some (mkPad "' '" false))) [(mkPacket "Logon" false None [(mkField "x" (ABasic "u8") LNone false); (mkField "user" ADyn LNone false)] []); (mkPacket "Logout" false None [(mkField "reason" (ABasic "u16") LNone false)] []); (mkPacket "Empty" false None [] []); (mkPacket "Frame" true (Some "BodyLen") [(mkField "MsgType" (ABasic "u16") LNone false); (mkField "BodyLen" (ALen (Some "Body") "u8") LLenOf false); (mkField "flags" (ABasic "u8") LNone false); (mkField "Body" (AObj false "Logon" (Some "Logon") None) LTarget false); (mkField "trailer" (ABasic "u32") LNone false)] [])] ["Empty"; "Frame"; "Logon"; "Logout"] (Some "Frame") [("Body", ("Body", "body", "body")); ("BodyLen", ("BodyLen", "bodyLen", "body_len")); ("Empty", ("Empty", "empty", "empty")); ("Frame", ("Frame", "frame", "frame")); ("Logon", ("Logon", "logon", "logon")); ("Logout", ("Logout", "logout", "logout")); ("MsgType", ("MsgType", "msgType", "msg_type")); ("byte", ("Byte", "byte", "byte")); ("char", ("Char", "char", "char")); ("double", ("Double", "double", "double")); ("f32", ("F32", "f32", "f_32")); ("f64", ("F64", "f64", "f_64")); ("flags", ("Flags", "flags", "flags")); ("float", ("Float", "float", "float")); ("float32", ("Float32", "float32", "float_32")); ("float64", ("Float64", "float64", "float_64")); ("i16", ("I16", "i16", "i_16")); ("i32", ("I32", "i32", "i_32")); ("i64", ("I64", "i64", "i_64")); ("i8", ("I8", "i8", "i_8")); ("int", ("Int", "int", "int")); ("int16", ("Int16", "int16", "int_16")); ("int32", ("Int32", "int32", "int_32")); ("int64", ("Int64", "int64", "int_64")); ("int8", ("Int8", "int8", "int_8")); ("long", ("Long", "long", "long")); ("match", ("Match", "match", "match")); ("object", ("Object", "object", "object")); ("reason", ("Reason", "reason", "reason")); ("short", ("Short", "short", "short")); ("string", ("String", "string", "string")); ("trailer", ("Trailer", "trailer", "trailer")); ("u16", ("U16", "u16", "u_16")); ("u32", ("U32", "u32", "u_32")); ("u64", ("U64", "u64", "u_64")); ("u8", ("U8", "u8", "u_8")); ("uint16", ("Uint16", "uint16", "uint_16")); ("uint32", ("Uint32", "uint32", "uint_32")); ("uint64", ("Uint64", "uint64", "uint_64")); ("uint8", ("Uint8", "uint8", "uint_8")); ("user", ("User", "user", "user")); ("x", ("X", "x", "x"))]).
-Definition O_len_3_c1 : prog := [("Logon", mkPkt 2%nat [(0%nat, (EInt 1%nat false)); (1%nat, (EStr 2%nat true true))] [(0%nat, (DInt 1%nat false)); (1%nat, (DStr 2%nat true false))]); ("Logout", mkPkt 1%nat [(0%nat, (EInt 2%nat true))] [(0%nat, (DInt 2%nat true))]); ("Empty", mkPkt 0%nat [] []); ("Frame", mkPkt 5%nat [(0%nat, (EInt 2%nat true)); (1%nat, (EMarkZero 1%nat 1%nat false)); (2%nat, (EInt 1%nat false)); (3%nat, (ESpan (EObj "Logon") 3%nat)); (3%nat, (EPatch 1%nat 3%nat 1%nat false 1%nat None)); (4%nat, (EInt 4%nat true))] [(0%nat, (DInt 2%nat true)); (1%nat, (DInt 1%nat false)); (2%nat, (DInt 1%nat false)); (3%nat, (DObj "Logon")); (4%nat, (DInt 4%nat true))])].
-Definition M_len_3_c1_v10 : value := (VObj []).
-Eval vm_compute in ("<<<len-3|10>>>" ++ pyx_both M_len_3_c1 O_len_3_c1 "Empty" M_len_3_c1_v10).
-Definition M_len_3_c1_v11 : value := (VObj []).
-Eval vm_compute in ("<<<len-3|11>>>" ++ pyx_both M_len_3_c1 O_len_3_c1 "Empty" M_len_3_c1_v11).
-Definition M_len_3_c1_v12 : value := (VObj [(VInt 0); (VInt 0); (VInt 0); (VObj [(VInt 0); (VStr [])]); (VInt 0)]).
-Eval vm_compute in ("<<<len-3|12>>>" ++ pyx_both M_len_3_c1 O_len_3_c1 "Frame" M_len_3_c1_v12).
-Definition M_len_3_c1_v13 : value := (VObj [(VInt 32768); (VInt 128); (VInt 128); (VObj [(VInt 128); (VStr [104;101;108;108;111])]); (VInt 2147483648)]).
-Eval vm_compute in ("<<<len-3|13>>>" ++ pyx_both M_len_3_c1 O_len_3_c1 "Frame" M_len_3_c1_v13).
-Definition M_len_3_c1_v14 : value := (VObj [(VInt 65535); (VInt 255); (VInt 255); (VObj [(VInt 255); (VStr [120;120;120;120;120;120;120;120;120;120;120;120;120;120;120;120;120;120;120;120;120;120;120;120;120;120;120;120;120;120;120;120;120;120;120;120;120;120;120;120;120;120;120;120;120;120;120;120;120;120;120;120;120;120;120;120;120;120;120;120;120;120;120;120;120;120;120;120;120;120;120;120;120;120;120;120;120;120;120;120;120;120;120;120;120;120;120;120;120;120;120;120;120;120;120;120;120;120;120;120;120;120;120;120;120;120;120;120;120;120;120;120;120;120;120;120;120;120;120;120;120;120;120;120;120;120;120;120;120;120])]); (VInt 4294967295)]).
-Eval vm_compute in ("<<<len-3|14>>>" ++ pyx_both M_len_3_c1 O_len_3_c1 "Frame" M_len_3_c1_v14).
-Definition M_len_3_c1_v15 : value := (VObj [(VInt 5306); (VInt 132); (VInt 248); (VObj [(VInt 207); (VStr [104;195;169;108;108;111;32;119;195;182;114;108;100;32;226;130;172])]); (VInt 3564191072)]).
-Eval vm_compute in ("<<<len-3|15>>>" ++ pyx_both M_len_3_c1 O_len_3_c1 "Frame" M_len_3_c1_v15).
-Definition M_key_12_c1 : bmodel := (mkModel (mkCfg "u16" "u16" "" "" "" false (Some (mkPad "' '" false))) [(mkPacket "Logon" false None [(mkField "x" (ABasic "u8") LNone false)] []); (mkPacket "Logout" false None [(mkField "reason" (ABasic "u16") LNone false)] []); (mkPacket "Frame" true None [(mkField "Kind" (ABasic "i32") LNone false); (mkField "Kind2" (ABasic "i32") LNone false); (mkField "Body" (AMatch (Some "Kind") (Some (ABasic "i32")) [(mkPair "1" "Logon"); (mkPair "2" "Logout"); (mkPair "3" "Logout"); (mkPair "4" "Logout"); (mkPair "100" "Logon")]) LNone false); (mkField "Trailer" (AMatch (Some "Kind2") (Some (ABasic "i32")) [(mkPair "0" "Logout")]) LNone false)] [("Kind", [(mkPair "1" "Logon"); (mkPair "2" "Logout"); (mkPair "3" "Logout"); (mkPair "4" "Logout"); (mkPair "100" "Logon")]); ("Kind2", [(mkPair "0" "Logout")])])] ["Frame"; "Logon"; "Logout"] (Some "Frame") [("Body", ("Body", "body", "body")); ("Frame", ("Frame", "frame", "frame")); ("Kind", ("Kind", "kind", "kind")); ("Kind2", ("Kind2", "kind2", "kind_2")); ("Logon", ("Logon", "logon", "logon")); ("Logout", ("Logout", "logout", "logout")); ("Trailer", ("Trailer", "trailer", "trailer")); ("byte", ("Byte", "byte", "byte")); ("char", ("Char", "char", "char")); ("double", ("Double", "double", "double")); ("f32", ("F32", "f32", "f_32")); ("f64", ("F64", "f64", "f_64")); ("float", ("Float", "float", "float")); ("float32", ("Float32", "float32", "float_32")); ("float64", ("Float64", "float64", "float_64")); ("i16", ("I16", "i16", "i_16")); ("i32", ("I32", "i32", "i_32")); ("i64", ("I64", "i64", "i_64")); ("i8", ("I8", "i8", "i_8")); ("int", ("Int", "int", "int")); ("int16", ("Int16", "int16", "int_16")); ("int32", ("Int32", "int32", "int_32")); ("int64", ("Int64", "int64", "int_64")); ("int8", ("Int8", "int8", "int_8")); ("long", ("Long", "long", "long")); ("match", ("Match", "match", "match")); ("object", ("Object", "object", "object")); ("reason", ("Reason", "reason", "reason")); ("short", ("Short", "short", "short")); ("string", ("String", "string", "string")); ("u16", ("U16", "u16", "u_16")); ("u32", ("U32", "u32", "u_32")); ("u64", ("U64", "u64", "u_64")); ("u8", ("U8", "u8", "u_8")); ("uint16", ("Uint16", "uint16", "uint_16")); ("uint32", ("Uint32", "uint32", "uint_32")); ("uint64", ("Uint64", "uint64", "uint_64")); ("uint8", ("Uint8", "uint8", "uint_8")); ("x", ("X", "x", "x"))]).
-Definition O_key_12_c1 : prog := [("Logon", mkPkt 1%nat [(0%nat, (EInt 1%nat false))] [(0%nat, (DInt 1%nat false))]); ("Logout", mkPkt 1%nat [(0%nat, (EInt 2%nat false))] [(0%nat, (DInt 2%nat false))]); ("Frame", mkPkt 4%nat [(0%nat, (EInt 4%nat false)); (1%nat, (EInt 4%nat false)); (2%nat, EDyn); (3%nat, EDyn)] [(0%nat, (DInt 4%nat false)); (1%nat, (DInt 4%nat false)); (2%nat, (DDispatch [("1", "Logon"); ("2", "Logout"); ("3", "Logout"); ("4", "Logout"); ("100", "Logon"); ("0", "Logout")] false 0%nat true)); (3%nat, (DDispatch [("1", "Logon"); ("2", "Logout"); ("3", "Logout"); ("4", "Logout"); ("100", "Logon"); ("0", "Logout")] false 1%nat true))])].
-Definition M_key_12_c1_v10 : value := (VObj [(VInt 1); (VInt 0); (VDyn "Logon" (VObj [(VInt 255)])); (VDyn "Logout" (VObj [(VInt 65535)]))]).
-Eval vm_compute in ("<<<key-12|10>>>" ++ pyx_both M_key_12_c1 O_key_12_c1 "Frame" M_key_12_c1_v10).
-Definition M_key_12_c1_v11 : value := (VObj [(VInt 1); (VInt 0); (VDyn "Logon" (VObj [(VInt 155)])); (VDyn "Logout" (VObj [(VInt 62468)]))]).
-Eval vm_compute in ("<<<key-12|11>>>" ++ pyx_both M_key_12_c1 O_key_12_c1 "Frame" M_key_12_c1_v11).
-Definition M_key_12_c1_v12 : value := (VObj [(VInt 2); (VInt 0); (VDyn "Logout" (VObj [(VInt 32768)])); (VDyn "Logout" (VObj [(VInt 32768)]))]).
-Eval vm_compute in ("<<<key-12|12>>>" ++ pyx_both M_key_12_c1 O_key_12_c1 "Frame" M_key_12_c1_v12).
-Definition M_key_12_c1_v13 : value := (VObj [(VInt 3); (VInt 0); (VDyn "Logout" (VObj [(VInt 32768)])); (VDyn "Logout" (VObj [(VInt 32768)]))]).
-Eval vm_compute in ("<<<key-12|13>>>" ++ pyx_both M_key_12_c1 O_key_12_c1 "Frame" M_key_12_c1_v13).
-Definition M_key_12_c1_v14 : value := (VObj [(VInt 4); (VInt 0); (VDyn "Logout" (VObj [(VInt 32768)])); (VDyn "Logout" (VObj [(VInt 32768)]))]).
-Eval vm_compute in ("<<<key-12|14>>>" ++ pyx_both M_key_12_c1 O_key_12_c1 "Frame" M_key_12_c1_v14).
-Definition M_key_12_c1_v15 : value := (VObj [(VInt 100); (VInt 0); (VDyn "Logon" (VObj [(VInt 128)])); (VDyn "Logout" (VObj [(VInt 32768)]))]).
-Eval vm_compute in ("<<<key-12|15>>>" ++ pyx_both M_key_12_c1 O_key_12_c1 "Frame" M_key_12_c1_v15).
-Definition M_t17_same_payload_c0 : bmodel := (mkModel (mkCfg "u16" "u16" "com.example.msg" "msg" "example.com/msg" false (Some (mkPad "' '" false))) [(mkPacket "A" false None [(mkField "a" (ABasic "u8") LNone false)] []); (mkPacket "P" true None [(mkField "K1" (ABasic "u8") LNone false); (mkField "K2" (ABasic "u8") LNone false); (mkField "M1" (AMatch (Some "K1") (Some (ABasic "u8")) [(mkPair "1" "A")]) LNone false); (mkField "M2" (AMatch (Some "K2") (Some (ABasic "u8")) [(mkPair "2" "A")]) LNone false)] [("K1", [(mkPair "1" "A")]); ("K2", [(mkPair "2" "A")])])] ["A"; "P"] (Some "P") [("A", ("A", "a", "a")); ("K1", ("K1", "k1", "k_1")); ("K2", ("K2", "k2", "k_2")); ("M1", ("M1", "m1", "m_1")); ("M2", ("M2", "m2", "m_2")); ("P", ("P", "p", "p")); ("a", ("A", "a", "a")); ("byte", ("Byte", "byte", "byte")); ("char", ("Char", "char", "char")); ("double", ("Double", "double", "double")); ("f32", ("F32", "f32", "f_32")); ("f64", ("F64", "f64", "f_64")); ("float", ("Float", "float", "float")); ("float32", ("Float32", "float32", "float_32")); ("float64", ("Float64", "float64", "float_64")); ("i16", ("I16", "i16", "i_16")); ("i32", ("I32", "i32", "i_32")); ("i64", ("I64", "i64", "i_64")); ("i8", ("I8", "i8", "i_8")); ("int", ("Int", "int", "int")); ("int16", ("Int16", "int16", "int_16")); ("int32", ("Int32", "int32", "int_32")); ("int64", ("Int64", "int64", "int_64")); ("int8", ("Int8", "int8", "int_8")); ("long", ("Long", "long", "long")); ("match", ("Match", "match", "match")); ("object", ("Object", "object", "object")); ("short", ("Short", "short", "short")); ("string", ("String", "string", "string")); ("u16", ("U16", "u16", "u_16")); ("u32", ("U32", "u32", "u_32")); ("u64", ("U64", "u64", "u_64")); ("u8", ("U8", "u8", "u_8")); ("uint16", ("Uint16", "uint16", "uint_16")); ("uint32", ("Uint32", "uint32", "uint_32")); ("uint64", ("Uint64", "uint64", "uint_64")); ("uint8", ("Uint8", "uint8", "uint_8"))]).
-Definition O_t17_same_payload_c0 : prog := [("A", mkPkt 1%nat [(0%nat, (EInt 1%nat false))] [(0%nat, (DInt 1%nat false))]); ("P", mkPkt 4%nat [(0%nat, (EInt 1%nat false)); (1%nat, (EInt 1%nat false)); (2%nat, EDyn); (3%nat, EDyn)] [(0%nat, (DInt 1%nat false)); (1%nat, (DInt 1%nat false)); (2%nat, (DDispatch [("1", "A"); ("2", "A")] false 0%nat true)); (3%nat, (DDispatch [("1", "A"); ("2", "A")] false 1%nat true))])].
-Eval vm_compute in ("<<<t17-same-payload|rep>>>" ++ show_bool (lenw_ok M_t17_same_payload_c0) ++ "@@" ++ report M_t17_same_payload_c0 O_t17_same_payload_c0).
-Definition M_t17_same_payload_c0_v0 : value := (VObj [(VInt 0)]).
-Eval vm_compute in ("<<<t17-same-payload|0>>>" ++ pyx_both M_t17_same_payload_c0 O_t17_same_payload_c0 "A" M_t17_same_payload_c0_v0).
-Definition M_t17_same_payload_c0_v1 : value := (VObj [(VInt 128)]).
-Eval vm_compute in ("<<<t17-same-payload|1>>>" ++ pyx_both M_t17_same_payload_c0 O_t17_same_payload_c0 "A" M_t17_same_payload_c0_v1).
-Definition M_t17_same_payload_c0_v2 : value := (VObj [(VInt 255)]).
-Eval vm_compute in ("<<<t17-same-payload|2>>>" ++ pyx_both M_t17_same_payload_c0 O_t17_same_payload_c0 "A" M_t17_same_payload_c0_v2).
-Definition M_t17_same_payload_c0_v3 : value := (VObj [(VInt 197)]).
-Eval vm_compute in ("<<<t17-same-payload|3>>>" ++ pyx_both M_t17_same_payload_c0 O_t17_same_payload_c0 "A" M_t17_same_payload_c0_v3).
-Definition M_t17_same_payload_c0_v4 : value := (VObj [(VInt 1); (VInt 2); (VDyn "A" (VObj [(VInt 0)])); (VDyn "A" (VObj [(VInt 0)]))]).
-Eval vm_compute in ("<<<t17-same-payload|4>>>" ++ pyx_both M_t17_same_payload_c0 O_t17_same_payload_c0 "P" M_t17_same_payload_c0_v4).
-Definition M_t17_same_payload_c0_v5 : value := (VObj [(VInt 1); (VInt 2); (VDyn "A" (VObj [(VInt 128)])); (VDyn "A" (VObj [(VInt 128)]))]).
-Eval vm_compute in ("<<<t17-same-payload|5>>>" ++ pyx_both M_t17_same_payload_c0 O_t17_same_payload_c0 "P" M_t17_same_payload_c0_v5).
-Definition M_t17_same_payload_c0_v6 : value := (VObj [(VInt 1); (VInt 2); (VDyn "A" (VObj [(VInt 255)])); (VDyn "A" (VObj [(VInt 255)]))]).
-Eval vm_compute in ("<<<t17-same-payload|6>>>" ++ pyx_both M_t17_same_payload_c0 O_t17_same_payload_c0 "P" M_t17_same_payload_c0_v6).
-Definition M_t17_same_payload_c0_v7 : value := (VObj [(VInt 1); (VInt 2); (VDyn "A" (VObj [(VInt 132)])); (VDyn "A" (VObj [(VInt 248)]))]).
-Eval vm_compute in ("<<<t17-same-payload|7>>>" ++ pyx_both M_t17_same_payload_c0 O_t17_same_payload_c0 "P" M_t17_same_payload_c0_v7).
-Definition M_fnd_camel_pkt_c0 : bmodel := (mkModel (mkCfg "u16" "u16" "" "" "" false (Some (mkPad "' '" false))) [(mkPacket "orderItem" false None [(mkField "a" (ABasic "u8") LNone false)] []); (mkPacket "newOrder" true None [(mkField "orderItem" (AObj false "orderItem" (Some "orderItem") None) LNone false); (mkField "x" (ABasic "u8") LNone false)] [])] ["newOrder"; "orderItem"] (Some "newOrder") [("a", ("A", "a", "a")); ("byte", ("Byte", "byte", "byte")); ("char", ("Char", "char", "char")); ("double", ("Double", "double", "double")); ("f32", ("F32", "f32", "f_32")); ("f64", ("F64", "f64", "f_64")); ("float", ("Float", "float", "float")); ("float32", ("Float32", "float32", "float_32")); ("float64", ("Float64", "float64", "float_64")); ("i16", ("I16", "i16", "i_16")); ("i32", ("I32", "i32", "i_32")); ("i64", ("I64", "i64", "i_64")); ("i8", ("I8", "i8", "i_8")); ("int", ("Int", "int", "int")); ("int16", ("Int16", "int16", "int_16")); ("int32", ("Int32", "int32", "int_32")); ("int64", ("Int64", "int64", "int_64")); ("int8", ("Int8", "int8", "int_8")); ("long", ("Long", "long", "long")); ("match", ("Match", "match", "match")); ("newOrder", ("NewOrder", "newOrder", "new_order")); ("object", ("Object", "object", "object")); ("orderItem", ("OrderItem", "orderItem", "order_item")); ("short", ("Short", "short", "short")); ("string", ("String", "string", "string")); ("u16", ("U16", "u16", "u_16")); ("u32", ("U32", "u32", "u_32")); ("u64", ("U64", "u64", "u_64")); ("u8", ("U8", "u8", "u_8")); ("uint16", ("Uint16", "uint16", "uint_16")); ("uint32", ("Uint32", "uint32", "uint_32")); ("uint64", ("Uint64", "uint64", "uint_64")); ("uint8", ("Uint8", "uint8", "uint_8")); ("x", ("X", "x", "x"))]).
-Definition O_fnd_camel_pkt_c0 : prog := [("orderItem", mkPkt 1%nat [(0%nat, (EInt 1%nat false))] [(0%nat, (DInt 1%nat false))]); ("newOrder", mkPkt 2%nat [(0%nat, (EObj "orderItem")); (1%nat, (EInt 1%nat false))] [(0%nat, (DObj "orderItem")); (1%nat, (DInt 1%nat false))])].
-Eval vm_compute in ("<<<fnd-camel-pkt|rep>>>" ++ show_bool (lenw_ok M_fnd_camel_pkt_c0) ++ "@@" ++ report M_fnd_camel_pkt_c0 O_fnd_camel_pkt_c0).
-Definition M_fnd_camel_pkt_c0_v0 : value := (VObj [(VInt 0)]).
-Eval vm_compute in ("<<<fnd-camel-pkt|0>>>" ++ pyx_both M_fnd_camel_pkt_c0 O_fnd_camel_pkt_c0 "orderItem" M_fnd_camel_pkt_c0_v0).
-Definition M_fnd_camel_pkt_c0_v1 : value := (VObj [(VInt 128)]).
-Eval vm_compute in ("<<<fnd-camel-pkt|1>>>" ++ pyx_both M_fnd_camel_pkt_c0 O_fnd_camel_pkt_c0 "orderItem" M_fnd_camel_pkt_c0_v1).
-Definition M_fnd_camel_pkt_c0_v2 : value := (VObj [(VInt 255)]).
-Eval vm_compute in ("<<<fnd-camel-pkt|2>>>" ++ pyx_both M_fnd_camel_pkt_c0 O_fnd_camel_pkt_c0 "orderItem" M_fnd_camel_pkt_c0_v2).
-Definition M_fnd_camel_pkt_c0_v3 : value := (VObj [(VInt 197)]).
-Eval vm_compute in ("<<<fnd-camel-pkt|3>>>" ++ pyx_both M_fnd_camel_pkt_c0 O_fnd_camel_pkt_c0 "orderItem" M_fnd_camel_pkt_c0_v3).
-Definition M_fnd_camel_pkt_c0_v4 : value := (VObj [(VObj [(VInt 0)]); (VInt 0)]).
-Eval vm_compute in ("<<<fnd-camel-pkt|4>>>" ++ pyx_both M_fnd_camel_pkt_c0 O_fnd_camel_pkt_c0 "newOrder" M_fnd_camel_pkt_c0_v4).
-Definition M_fnd_camel_pkt_c0_v5 : value := (VObj [(VObj [(VInt 128)]); (VInt 128)]).
-Eval vm_compute in ("<<<fnd-camel-pkt|5>>>" ++ pyx_both M_fnd_camel_pkt_c0 O_fnd_camel_pkt_c0 "newOrder" M_fnd_camel_pkt_c0_v5).
-Definition M_fnd_camel_pkt_c0_v6 : value := (VObj [(VObj [(VInt 255)]); (VInt 255)]).
-Eval vm_compute in ("<<<fnd-camel-pkt|6>>>" ++ pyx_both M_fnd_camel_pkt_c0 O_fnd_camel_pkt_c0 "newOrder" M_fnd_camel_pkt_c0_v6).
-Definition M_fnd_camel_pkt_c0_v7 : value := (VObj [(VObj [(VInt 215)]); (VInt 20)]).
-Eval vm_compute in ("<<<fnd-camel-pkt|7>>>" ++ pyx_both M_fnd_camel_pkt_c0 O_fnd_camel_pkt_c0 "newOrder" M_fnd_camel_pkt_c0_v7).
+Definition M_prog_c1 : bmodel := (mkModel (mkCfg "u16" "u16" "" "" "" false (Some (mkPad "' '" false))) [(mkPacket "Logon" false None [(mkField "x" (ABasic "u8") LNone false); (mkField "user" ADyn LNone false)] []); (mkPacket "Logout" false None [(mkField "reason" (ABasic "u16") LNone false)] []); (mkPacket "Empty" false None [] []); (mkPacket "Frame" true (Some "BodyLen") [(mkField "MsgType" (ABasic "u16") LNone false); (mkField "BodyLen" (ALen (Some "Body") "u32") LLenOf false); (mkField "flags" (ABasic "u8") LNone false); (mkField "Body" (AMatch (Some "MsgType") (Some (ABasic "u16")) [(mkPair "1" "Logon"); (mkPair "2" "Logout"); (mkPair "3" "Empty")]) LTarget false); (mkField "trailer" (ABasic "u32") LNone false)] [("MsgType", [(mkPair "1" "Logon"); (mkPair "2" "Logout"); (mkPair "3" "Empty")])])] ["Empty"; "Frame"; "Logon"; "Logout"] (Some "Frame") [("Body", ("Body", "body", "body")); ("BodyLen", ("BodyLen", "bodyLen", "body_len")); ("Empty", ("Empty", "empty", "empty")); ("Frame", ("Frame", "frame", "frame")); ("Logon", ("Logon", "logon", "logon")); ("Logout", ("Logout", "logout", "logout")); ("MsgType", ("MsgType", "msgType", "msg_type")); ("byte", ("Byte", "byte", "byte")); ("char", ("Char", "char", "char")); ("double", ("Double", "double", "double")); ("f32", ("F32", "f32", "f_32")); ("f64", ("F64", "f64", "f_64")); ("flags", ("Flags", "flags", "flags")); ("float", ("Float", "float", "float")); ("float32", ("Float32", "float32", "float_32")); ("float64", ("Float64", "float64", "float_64")); ("i16", ("I16", "i16", "i_16")); ("i32", ("I32", "i32", "i_32")); ("i64", ("I64", "i64", "i_64")); ("i8", ("I8", "i8", "i_8")); ("int", ("Int", "int", "int")); ("int16", ("Int16", "int16", "int_16")); ("int32", ("Int32", "int32", "int_32")); ("int64", ("Int64", "int64", "int_64")); ("int8", ("Int8", "int8", "int_8")); ("long", ("Long", "long", "long")); ("match", ("Match", "match", "match")); ("object", ("Object", "object", "object")); ("reason", ("Reason", "reason", "reason")); ("short", ("Short", "short", "short")); ("string", ("String", "string", "string")); ("trailer", ("Trailer", "trailer", "trailer")); ("u16", ("U16", "u16", "u_16")); ("u32", ("U32", "u32", "u_32")); ("u64", ("U64", "u64", "u_64")); ("u8", ("U8", "u8", "u_8")); ("uint16", ("Uint16", "uint16", "uint_16")); ("uint32", ("Uint32", "uint32", "uint_32")); ("uint64", ("Uint64", "uint64", "uint_64")); ("uint8", ("Uint8", "uint8", "uint_8")); ("user", ("User", "user", "user")); ("x", ("X", "x", "x"))]).
+Definition O_prog_c1 : prog := [("Logon", mkPkt 2%nat [(0%nat, (EInt 1%nat false)); (1%nat, (EStr 2%nat false false))] [(0%nat, (DInt 1%nat false)); (1%nat, (DStr 2%nat false false))]); ("Logout", mkPkt 1%nat [(0%nat, (EInt 2%nat false))] [(0%nat, (DInt 2%nat false))]); ("Empty", mkPkt 0%nat [] []); ("Frame", mkPkt 5%nat [(0%nat, (EInt 2%nat false)); (1%nat, (EMarkZero 1%nat 4%nat false)); (999%nat, (ENone "junk")); (2%nat, (EInt 1%nat false)); (3%nat, EDyn); (999%nat, (ENone "junk")); (999%nat, (ENone "junk")); (999%nat, (EPatch 1%nat 999%nat 4%nat false 4%nat None)); (4%nat, (EInt 4%nat false))] [(0%nat, (DInt 2%nat false)); (1%nat, (DInt 4%nat false)); (2%nat, (DInt 1%nat false)); (3%nat, (DDispatch [("1", "Logon"); ("2", "Logout"); ("3", "Empty")] false 0%nat true)); (4%nat, (DInt 4%nat false))])].
+Definition M_prog_c1_v10 : value := (VObj []).
+Eval vm_compute in ("<<<prog|10>>>" ++ pyx_both M_prog_c1 O_prog_c1 "Empty" M_prog_c1_v10).
+Definition M_prog_c1_v11 : value := (VObj []).
+Eval vm_compute in ("<<<prog|11>>>" ++ pyx_both M_prog_c1 O_prog_c1 "Empty" M_prog_c1_v11).
+Definition M_prog_c1_v12 : value := (VObj [(VInt 1); (VInt 0); (VInt 0); (VDyn "Logon" (VObj [(VInt 0); (VStr [])])); (VInt 0)]).
+Eval vm_compute in ("<<<prog|12>>>" ++ pyx_both M_prog_c1 O_prog_c1 "Frame" M_prog_c1_v12).
+Definition M_prog_c1_v13 : value := (VObj [(VInt 1); (VInt 2147483648); (VInt 128); (VDyn "Logon" (VObj [(VInt 128); (VStr [104;101;108;108;111])])); (VInt 2147483648)]).
+Eval vm_compute in ("<<<prog|13>>>" ++ pyx_both M_prog_c1 O_prog_c1 "Frame" M_prog_c1_v13).
+Definition M_prog_c1_v14 : value := (VObj [(VInt 1); (VInt 4294967295); (VInt 255); (VDyn "Logon" (VObj [(VInt 255); (VStr [120;120;120;120;120;120;120;120;120;120;120;120;120;120;120;120;120;120;120;120;120;120;120;120;120;120;120;120;120;120;120;120;120;120;120;120;120;120;120;120;120;120;120;120;120;120;120;120;120;120;120;120;120;120;120;120;120;120;120;120;120;120;120;120;120;120;120;120;120;120;120;120;120;120;120;120;120;120;120;120;120;120;120;120;120;120;120;120;120;120;120;120;120;120;120;120;120;120;120;120;120;120;120;120;120;120;120;120;120;120;120;120;120;120;120;120;120;120;120;120;120;120;120;120;120;120;120;120;120;120])])); (VInt 4294967295)]).
+Eval vm_compute in ("<<<prog|14>>>" ++ pyx_both M_prog_c1 O_prog_c1 "Frame" M_prog_c1_v14).
+Definition M_prog_c1_v15 : value := (VObj [(VInt 1); (VInt 2195908194); (VInt 207); (VDyn "Logon" (VObj [(VInt 155); (VStr [104;195;169;108;108;111;32;119;195;182;114;108;100;32;226;130;172])])); (VInt 4156669319)]).
+Eval vm_compute in ("<<<prog|15>>>" ++ pyx_both M_prog_c1 O_prog_c1 "Frame" M_prog_c1_v15).
+Definition M_prog_c1_v16 : value := (VObj [(VInt 2); (VInt 2147483648); (VInt 128); (VDyn "Logout" (VObj [(VInt 32768)])); (VInt 2147483648)]).
+Eval vm_compute in ("<<<prog|16>>>" ++ pyx_both M_prog_c1 O_prog_c1 "Frame" M_prog_c1_v16).
+Definition M_prog_c1_v17 : value := (VObj [(VInt 3); (VInt 2147483648); (VInt 128); (VDyn "Empty" (VObj [])); (VInt 2147483648)]).
+Eval vm_compute in ("<<<prog|17>>>" ++ pyx_both M_prog_c1 O_prog_c1 "Frame" M_prog_c1_v17).
